@@ -1,4 +1,4 @@
-(* C03, the lexer on every spelling of a query WITH filters (numbers without exponent part).  Forward lemmas for the filter state under
+(* C03, the lexer on every spelling of a query WITH filters.  Forward lemmas for the filter state under
    general FOLLOW conditions (generalised from Proofs/ReparseF.v, where what follows a token is a blank, a comma or a closing bracket),
    then the induction over the expression productions of the token grammar, threading the lexer's three stacks. *)
 From JP Require Import Base.Prelude Base.Json Model.Regex Model.Tokens Model.Lex Model.Ast Model.Parse Model.Serialize Model.Api Spec.Types Spec.StringLit Spec.Printable
@@ -134,6 +134,318 @@ Proof.
   rewrite (float_rm sign d ds' f fs' c r Hs Hd1 Hd2 Hf1 Hf2 Hc).
   - f_equal. unfold zlen. repeat (progress (rewrite ?app_length; cbn [length])). lia.
   - repeat (progress (rewrite ?app_length; cbn [length])). lia.
+Qed.
+
+(* ---- numbers with an exponent part ---- *)
+(* after the exponent mark of an INT spelling, "-" does not follow *)
+Lemma exp_no_minus pl f fs rest G n K : (pl = [] \/ pl = [43%N]) -> isd f = true -> rm G (RSeq (RClass false [(45, 45)]%N) K) (pl ++ f :: fs ++ rest) n (fun _ m => Some m) = None.
+Proof.
+  intros Hps Hf. destruct G as [|[|G]]; try reflexivity. rewrite rm_seq_S, rm_class_S. destruct (digit_facts f Hf) as (_ & _ & _ & E45 & _).
+  destruct Hps as [-> | ->]; cbn [app]; [rewrite E45 |]; reflexivity.
+Qed.
+
+Lemma digits_k_fail body rest F n (k : list N -> Z -> option Z) : forallb isd body = true ->
+  match rest with c :: _ => in_ranges c cls_digit = false | [] => True end ->
+  (forall j n', (j <= length body)%nat -> k (skipn j body ++ rest) n' = None) ->
+  rm F re_dd (body ++ rest) n k = None.
+Proof.
+  intros Hd Hr Hk. unfold re_dd. destruct F as [|f]; [reflexivity|]. rewrite rm_seq_S. destruct f as [|f]; [reflexivity|]. rewrite rm_class_S.
+  destruct body as [|d ds]; cbn [app].
+  - destruct rest as [|c r]; [reflexivity|]. rewrite Hr. reflexivity.
+  - destruct (xorb false (in_ranges d cls_digit)); [|reflexivity]. cbn [forallb] in Hd. apply andb_true_iff in Hd as [_ Hd2].
+    apply star_class_fail; [exact Hr|]. intros j n' Hj. apply (Hk (S j) n'). cbn [length]. lia.
+Qed.
+
+(* sign? digits R  fails when R fails after every way of stopping inside the digits *)
+Lemma minus_digits_fail sg d ds rest R F n (K : list N -> Z -> option Z) : (sg = [] \/ sg = [45%N]) -> isd d = true -> forallb isd ds = true ->
+  match rest with c :: _ => in_ranges c cls_digit = false | [] => True end ->
+  (forall j n' F', (j <= length (d :: ds))%nat -> rm F' R (skipn j (d :: ds) ++ rest) n' K = None) ->
+  rm F (RSeq (RAlt (RClass false [(45, 45)]%N) REps) (RSeq re_dd R)) (sg ++ (d :: ds) ++ rest) n K = None.
+Proof.
+  intros Hs Hd1 Hd2 Hr HR. destruct (digit_facts d Hd1) as (Ed & _ & _ & E45 & _).
+  assert (Hdig : forall F1 n1, rm F1 (RSeq re_dd R) ((d :: ds) ++ rest) n1 K = None).
+  { intros F1 n1. destruct F1 as [|F1]; [reflexivity|]. rewrite rm_seq_S. apply digits_k_fail; [cbn [forallb]; rewrite Hd1, Hd2; reflexivity | exact Hr|]. intros j n' Hj. apply HR. exact Hj. }
+  destruct F as [|F]; [reflexivity|]. rewrite rm_seq_S. destruct F as [|F]; [reflexivity|]. rewrite rm_alt_S.
+  destruct Hs as [-> | ->]; cbn [app].
+  - destruct F as [|F]; [reflexivity|]. rewrite rm_class_S, E45. cbn [xorb]. destruct F as [|F]; [reflexivity|]. rewrite rm_eps_S. apply Hdig.
+  - destruct F as [|F]; [reflexivity|]. rewrite rm_class_S. change (in_ranges 45 [(45, 45)]%N) with true. cbn [xorb]. rewrite Hdig.
+    destruct F as [|F]; [reflexivity|]. rewrite rm_eps_S. destruct F as [|F]; [reflexivity|]. rewrite rm_seq_S. unfold re_dd. destruct F as [|F]; [reflexivity|]. rewrite rm_seq_S. destruct F as [|F]; [reflexivity|]. rewrite rm_class_S. reflexivity.
+Qed.
+
+Lemma suffix_head (body : list N) c r j : forallb isd body = true -> (j <= length body)%nat ->
+  (exists x tl, skipn j body ++ c :: r = x :: tl /\ isd x = true) \/ (skipn j body ++ c :: r = c :: r).
+Proof.
+  revert j. induction body as [|b body IH]; intros j Hd Hj.
+  - right. destruct j; reflexivity.
+  - cbn [forallb] in Hd. apply andb_true_iff in Hd as [H1 H2]. destruct j as [|j]; [left; exists b, (body ++ c :: r); split; [reflexivity | exact H1]|]. cbn [skipn]. apply IH; [exact H2 | cbn [length] in Hj; lia].
+Qed.
+
+Lemma float_nomatch_e sg d ds e pl f fs c r : (sg = [] \/ sg = [45%N]) -> isd d = true -> forallb isd ds = true ->
+  in_ranges e [(101, 101); (69, 69)]%N = true -> (pl = [] \/ pl = [43%N]) -> isd f = true -> forallb isd fs = true ->
+  re_match RE_FLOAT (sg ++ (d :: ds) ++ e :: pl ++ f :: fs ++ c :: r) = None.
+Proof.
+  intros Hs Hd1 Hd2 He Hps Hf1 Hf2. destruct (digit_facts d Hd1) as (Ed & _ & _ & E45 & E58).
+  assert (HeD : in_ranges e cls_digit = false /\ in_ranges e [(46, 46)]%N = false) by (unfold cls_digit; cbn [in_ranges] in *; lia).
+  destruct HeD as [HeD He46].
+  unfold re_match. set (F := (8 * length (sg ++ (d :: ds) ++ e :: pl ++ f :: fs ++ c :: r) + 64)%nat). clearbody F.
+  change RE_FLOAT with (RAlt (RSeq (RAlt (RClass false [(58, 58)]%N) REps) (RSeq (RAlt (RClass false [(45, 45)]%N) REps) (RSeq re_dd (RSeq (RClass false [(46, 46)]%N) (RSeq re_dd re_exp_opt)))))
+                             (RSeq (RAlt (RClass false [(45, 45)]%N) REps) (RSeq re_dd (RSeq (RClass false [(101, 101); (69, 69)]%N) (RSeq (RClass false [(45, 45)]%N) re_dd))))).
+  destruct F as [|F]; [reflexivity|]. rewrite rm_alt_S.
+  (* first alternative: a "." is required right after some of the digits *)
+  assert (E1 : forall n K, rm F (RSeq (RAlt (RClass false [(58, 58)]%N) REps) (RSeq (RAlt (RClass false [(45, 45)]%N) REps) (RSeq re_dd (RSeq (RClass false [(46, 46)]%N) (RSeq re_dd re_exp_opt)))))
+                              (sg ++ (d :: ds) ++ e :: pl ++ f :: fs ++ c :: r) n K = None).
+  { intros n K. destruct F as [|F0]; [reflexivity|]. rewrite rm_seq_S. destruct F0 as [|F0]; [reflexivity|]. rewrite rm_alt_S.
+    assert (E58' : forall G K', rm G (RClass false [(58, 58)]%N) (sg ++ (d :: ds) ++ e :: pl ++ f :: fs ++ c :: r) n K' = None).
+    { intros G K'. destruct G as [|G]; [reflexivity|]. rewrite rm_class_S. destruct Hs as [-> | ->]; cbn [app]; [rewrite E58 |]; reflexivity. }
+    rewrite E58'. destruct F0 as [|F0]; [reflexivity|]. rewrite rm_eps_S.
+    apply (minus_digits_fail sg d ds (e :: pl ++ f :: fs ++ c :: r)); try assumption.
+    intros j n' F' Hj. destruct F' as [|[|F']]; try reflexivity. rewrite rm_seq_S, rm_class_S.
+    destruct (suffix_head (d :: ds) e (pl ++ f :: fs ++ c :: r) j ltac:(cbn [forallb]; rewrite Hd1, Hd2; reflexivity) Hj) as [(x & tl & -> & Hx) | ->].
+    - destruct (digit_facts x Hx) as (_ & _ & X46 & _). rewrite X46. reflexivity.
+    - rewrite He46. reflexivity. }
+  rewrite E1.
+  apply (minus_digits_fail sg d ds (e :: pl ++ f :: fs ++ c :: r)); try assumption.
+  intros j n' F' Hj. destruct F' as [|[|F']]; try reflexivity. rewrite rm_seq_S, rm_class_S.
+  destruct (suffix_head (d :: ds) e (pl ++ f :: fs ++ c :: r) j ltac:(cbn [forallb]; rewrite Hd1, Hd2; reflexivity) Hj) as [(x & tl & -> & Hx) | ->].
+  - destruct (digit_facts x Hx) as (_ & XE & _). rewrite XE. reflexivity.
+  - rewrite He. cbn [xorb]. apply exp_no_minus; assumption.
+Qed.
+
+Definition kid : list N -> Z -> option Z := fun _ n => Some n.
+Definition dcls (l : list N) : bool := forallb (fun x => in_ranges x cls_digit) l.
+Lemma isd_dcls l : forallb isd l = true -> dcls l = true.
+Proof. unfold dcls. rewrite !forallb_forall. intros H x Hx. apply (digit_facts x (H x Hx)). Qed.
+
+(* digits+ then whatever the continuation makes of the rest *)
+Lemma dd_rm d ds rest G n (k : list N -> Z -> option Z) x : in_ranges d cls_digit = true -> dcls ds = true ->
+  match rest with c :: _ => in_ranges c cls_digit = false | [] => True end -> (length ds + 4 <= G)%nat ->
+  k rest (n + zlen (d :: ds)) = Some x -> rm G re_dd ((d :: ds) ++ rest) n k = Some x.
+Proof.
+  intros Ed Hds Hr HG Hk. destruct G as [|[|G]]; try lia. unfold re_dd. rewrite rm_seq_S, rm_class_S. cbn [app]. rewrite Ed. cbn [xorb].
+  apply star_class; [exact Hds | exact Hr | lia|]. rewrite <- Hk. f_equal. unfold zlen. cbn [length]. lia.
+Qed.
+
+(* the optional exponent part, present *)
+Lemma expo_rm cls e pm f fs c r G n : in_ranges e [(101, 101); (69, 69)]%N = true -> (pm = [] \/ exists s, pm = [s] /\ in_ranges s cls = true) -> in_ranges f cls = false ->
+  in_ranges f cls_digit = true -> dcls fs = true -> in_ranges c cls_digit = false -> (length fs + 12 <= G)%nat ->
+  rm G (RAlt (RSeq (RClass false [(101, 101); (69, 69)]%N) (RSeq (RAlt (RClass false cls) REps) re_dd)) REps) (e :: pm ++ (f :: fs) ++ c :: r) n kid
+  = Some (n + 1 + zlen pm + zlen (f :: fs)).
+Proof.
+  intros He Hpm Hfc Ef Hfs Hc HG. destruct G as [|[|[|[|[|[|G]]]]]]; try lia.
+  rewrite rm_alt_S, rm_seq_S, rm_class_S, He. cbn [xorb]. rewrite rm_seq_S, rm_alt_S.
+  destruct Hpm as [-> | (s & -> & Hs)]; cbn [app].
+  - rewrite rm_class_S, Hfc. cbn [xorb]. rewrite rm_eps_S.
+    change (f :: fs ++ c :: r) with ((f :: fs) ++ c :: r). rewrite (dd_rm f fs (c :: r) _ (n + 1) _ (n + 1 + zlen (@nil N) + zlen (f :: fs))); [reflexivity | assumption | assumption | exact Hc | lia |].
+    unfold kid, zlen. cbn [length]. f_equal; lia.
+  - rewrite rm_class_S, Hs. cbn [xorb].
+    change (f :: fs ++ c :: r) with ((f :: fs) ++ c :: r). rewrite (dd_rm f fs (c :: r) _ (n + 1 + 1) _ (n + 1 + zlen [s] + zlen (f :: fs))); [reflexivity | assumption | assumption | exact Hc | lia |].
+    unfold kid, zlen. cbn [length]. f_equal; lia.
+Qed.
+
+Lemma sign_rm sg (R : re) rest G n (k : list N -> Z -> option Z) x : (sg = [] \/ sg = [45%N]) ->
+  match rest with c :: _ => in_ranges c [(45, 45)]%N = false | [] => True end -> (4 <= G)%nat ->
+  (forall G', (G <= G' + 4)%nat -> rm G' R rest (n + zlen sg) k = Some x) ->
+  rm G (RSeq (RAlt (RClass false [(45, 45)]%N) REps) R) (sg ++ rest) n k = Some x.
+Proof.
+  intros Hs Hr HG HR. destruct G as [|[|[|[|G]]]]; try lia. rewrite rm_seq_S, rm_alt_S. destruct Hs as [-> | ->]; cbn [app].
+  - rewrite rm_class_S. destruct rest as [|c rest']; [|rewrite Hr; cbn [xorb]]; rewrite rm_eps_S;
+      rewrite <- (HR (S (S (S G))) ltac:(lia)); unfold zlen; cbn [length]; rewrite Z.add_0_r; reflexivity.
+  - rewrite rm_class_S. change (in_ranges 45 [(45, 45)]%N) with true. cbn [xorb].
+    pose proof (HR (S (S (S G))) ltac:(lia)) as E. unfold zlen in E. cbn [length] in E. change (Z.of_nat 1) with 1 in E. rewrite E. reflexivity.
+Qed.
+
+Lemma nd_facts c : isd c = false -> in_ranges c cls_digit = false.
+Proof. unfold isd, cls_digit. cbn [in_ranges]. lia. Qed.
+Lemma eE_facts e : in_ranges e [(101, 101); (69, 69)]%N = true -> in_ranges e cls_digit = false /\ in_ranges e [(46, 46)]%N = false.
+Proof. unfold cls_digit. cbn [in_ranges]. lia. Qed.
+Lemma d_signs f : isd f = true -> in_ranges f [(43, 43)]%N = false /\ in_ranges f [(43, 43); (45, 45)]%N = false.
+Proof. unfold isd. cbn [in_ranges]. lia. Qed.
+Ltac nlia := repeat match goal with H : _ = true |- _ => clear H | H : _ = false |- _ => clear H | H : _ \/ _ |- _ => clear H | H : forall _, _ |- _ => clear H end; lia.
+
+Lemma int_exp_rm sg d ds e pl f fs c r : (sg = [] \/ sg = [45%N]) -> isd d = true -> forallb isd ds = true ->
+  in_ranges e [(101, 101); (69, 69)]%N = true -> (pl = [] \/ pl = [43%N]) -> isd f = true -> forallb isd fs = true -> isd c = false ->
+  forall F, (30 + length ds + length fs <= F)%nat ->
+  rm F RE_INT (sg ++ (d :: ds) ++ e :: pl ++ (f :: fs) ++ c :: r) 0 kid = Some (zlen sg + zlen (d :: ds) + 1 + zlen pl + zlen (f :: fs)).
+Proof.
+  intros Hs Hd1 Hd2 He Hps Hf1 Hf2 Hc F HF.
+  destruct (digit_facts d Hd1) as (Ed & _ & _ & E45 & _). destruct (digit_facts f Hf1) as (Ef & _ & _ & _ & _).
+  pose proof (isd_dcls _ Hd2) as Hds. pose proof (isd_dcls _ Hf2) as Hfs.
+  pose proof (nd_facts c Hc) as HcD.
+  destruct (eE_facts e He) as [HeD He46].
+  destruct (d_signs f Hf1) as [Hf43 _].
+  change RE_INT with (RSeq (RAlt (RClass false [(45, 45)]%N) REps) (RSeq re_dd (RAlt (RSeq (RClass false [(101, 101); (69, 69)]%N) (RSeq (RAlt (RClass false [(43, 43)]%N) REps) re_dd)) REps))).
+  apply sign_rm; [exact Hs | cbn [app]; exact E45 | nlia|].
+  intros G' HG'. destruct G' as [|G']; [nlia|]. rewrite rm_seq_S.
+  apply dd_rm; [exact Ed | exact Hds | exact HeD | nlia|].
+  rewrite (expo_rm [(43, 43)]%N e pl f fs c r); try assumption; [f_equal; nlia | | nlia].
+  destruct Hps as [-> | ->]; [left; reflexivity | right; exists 43%N; split; reflexivity].
+Qed.
+
+(* the first alternative of the FLOAT pattern, the exponent part left to a hypothesis *)
+Lemma float1_rm sg d ds f fs tail x : (sg = [] \/ sg = [45%N]) -> isd d = true -> forallb isd ds = true -> isd f = true -> forallb isd fs = true ->
+  match tail with c :: _ => in_ranges c cls_digit = false | [] => True end ->
+  forall B, (forall G', (B <= G')%nat -> rm G' re_exp_opt tail (zlen sg + zlen (d :: ds) + 1 + zlen (f :: fs)) kid = Some x) ->
+  forall F, (B + 30 + length ds + length fs <= F)%nat ->
+  rm F RE_FLOAT (sg ++ (d :: ds) ++ 46%N :: (f :: fs) ++ tail) 0 kid = Some x.
+Proof.
+  intros Hs Hd1 Hd2 Hf1 Hf2 Ht B HB F HF.
+  destruct (digit_facts d Hd1) as (Ed & _ & _ & E45 & E58). destruct (digit_facts f Hf1) as (Ef & _ & _ & _ & _).
+  pose proof (isd_dcls _ Hd2) as Hds. pose proof (isd_dcls _ Hf2) as Hfs. clear Hd1 Hd2 Hf1 Hf2.
+  change RE_FLOAT with (RAlt (RSeq (RAlt (RClass false [(58, 58)]%N) REps) (RSeq (RAlt (RClass false [(45, 45)]%N) REps) (RSeq re_dd (RSeq (RClass false [(46, 46)]%N) (RSeq re_dd re_exp_opt)))))
+                             (RSeq re_minus_opt (RSeq re_digits (RSeq re_eE (RSeq (RChar 45) re_digits))))).
+  destruct F as [|[|[|[|F]]]]; try nlia.
+  rewrite rm_alt_S, rm_seq_S, rm_alt_S.
+  assert (E58' : forall G K, rm G (RClass false [(58, 58)]%N) (sg ++ (d :: ds) ++ 46%N :: (f :: fs) ++ tail) 0 K = None).
+  { intros G K. destruct G as [|G]; [reflexivity|]. rewrite rm_class_S. destruct Hs as [-> | ->]; cbn [app]; [rewrite E58 |]; reflexivity. }
+  rewrite E58', rm_eps_S.
+  rewrite (sign_rm sg _ ((d :: ds) ++ 46%N :: (f :: fs) ++ tail) _ 0 kid x); [reflexivity | exact Hs | cbn [app]; exact E45 | nlia |].
+  intros G' HG'. destruct G' as [|G']; [nlia|]. rewrite rm_seq_S.
+  apply dd_rm; [exact Ed | exact Hds | reflexivity | nlia|].
+  destruct G' as [|[|G']]; try nlia. rewrite rm_seq_S, rm_class_S. change (in_ranges 46 [(46, 46)]%N) with true. cbn [xorb]. rewrite rm_seq_S.
+  apply dd_rm; [exact Ef | exact Hfs | exact Ht | nlia|].
+  rewrite <- (HB G' ltac:(nlia)). f_equal; nlia.
+Qed.
+
+Lemma float_alt1_fail sg d ds x tl F n K : (sg = [] \/ sg = [45%N]) -> isd d = true -> forallb isd ds = true ->
+  in_ranges x cls_digit = false -> in_ranges x [(46, 46)]%N = false ->
+  rm F (RSeq (RAlt (RClass false [(58, 58)]%N) REps) (RSeq (RAlt (RClass false [(45, 45)]%N) REps) (RSeq re_dd (RSeq (RClass false [(46, 46)]%N) (RSeq re_dd re_exp_opt)))))
+       (sg ++ (d :: ds) ++ x :: tl) n K = None.
+Proof.
+  intros Hs Hd1 Hd2 HxD Hx46. destruct (digit_facts d Hd1) as (Ed & _ & _ & E45 & E58).
+  destruct F as [|F0]; [reflexivity|]. rewrite rm_seq_S. destruct F0 as [|F0]; [reflexivity|]. rewrite rm_alt_S.
+  assert (E58' : forall G K', rm G (RClass false [(58, 58)]%N) (sg ++ (d :: ds) ++ x :: tl) n K' = None).
+  { intros G K'. destruct G as [|G]; [reflexivity|]. rewrite rm_class_S. destruct Hs as [-> | ->]; cbn [app]; [rewrite E58 |]; reflexivity. }
+  rewrite E58'. destruct F0 as [|F0]; [reflexivity|]. rewrite rm_eps_S.
+  apply (minus_digits_fail sg d ds (x :: tl)); try assumption.
+  intros j n' F' Hj. destruct F' as [|[|F']]; try reflexivity. rewrite rm_seq_S, rm_class_S.
+  destruct (suffix_head (d :: ds) x tl j ltac:(cbn [forallb]; rewrite Hd1, Hd2; reflexivity) Hj) as [(y & tl' & -> & Hy) | ->].
+  - destruct (digit_facts y Hy) as (_ & _ & X46 & _). rewrite X46. reflexivity.
+  - rewrite Hx46. reflexivity.
+Qed.
+
+(* the second alternative: sign digits e "-" digits *)
+Lemma float2_rm sg d ds e f fs c r : (sg = [] \/ sg = [45%N]) -> isd d = true -> forallb isd ds = true ->
+  in_ranges e [(101, 101); (69, 69)]%N = true -> isd f = true -> forallb isd fs = true -> isd c = false ->
+  forall F, (40 + length ds + length fs <= F)%nat ->
+  rm F RE_FLOAT (sg ++ (d :: ds) ++ e :: 45%N :: (f :: fs) ++ c :: r) 0 kid = Some (zlen sg + zlen (d :: ds) + 2 + zlen (f :: fs)).
+Proof.
+  intros Hs Hd1 Hd2 He Hf1 Hf2 Hc F HF.
+  destruct (eE_facts e He) as [HeD He46].
+  change RE_FLOAT with (RAlt (RSeq (RAlt (RClass false [(58, 58)]%N) REps) (RSeq (RAlt (RClass false [(45, 45)]%N) REps) (RSeq re_dd (RSeq (RClass false [(46, 46)]%N) (RSeq re_dd re_exp_opt)))))
+                             (RSeq (RAlt (RClass false [(45, 45)]%N) REps) (RSeq re_dd (RSeq (RClass false [(101, 101); (69, 69)]%N) (RSeq (RClass false [(45, 45)]%N) re_dd))))).
+  destruct F as [|F]; [nlia|]. rewrite rm_alt_S. rewrite (float_alt1_fail sg d ds e _ F 0 kid Hs Hd1 Hd2 HeD He46).
+  destruct (digit_facts d Hd1) as (Ed & _ & _ & E45 & _). destruct (digit_facts f Hf1) as (Ef & _ & _ & _ & _).
+  pose proof (isd_dcls _ Hd2) as Hds. pose proof (isd_dcls _ Hf2) as Hfs.
+  pose proof (nd_facts c Hc) as HcD.
+  apply sign_rm; [exact Hs | cbn [app]; exact E45 | nlia|].
+  intros G' HG'. destruct G' as [|G']; [nlia|]. rewrite rm_seq_S.
+  apply dd_rm; [exact Ed | exact Hds | exact HeD | nlia|].
+  destruct G' as [|[|[|[|G']]]]; try nlia. rewrite rm_seq_S, rm_class_S, He. cbn [xorb]. rewrite rm_seq_S, rm_class_S. change (in_ranges 45 [(45, 45)]%N) with true. cbn [xorb].
+  apply dd_rm; [exact Ef | exact Hfs | exact HcD | nlia|]. unfold kid. f_equal. nlia.
+Qed.
+
+(* ---- the two number shapes, as the token patterns describe them ---- *)
+Definition sgn (sg : list N) : Prop := sg = [] \/ sg = [45%N].
+Definition digs (l : list N) : Prop := l <> [] /\ forallb isd l = true.
+Definition eEc (e : N) : Prop := in_ranges e [(101, 101); (69, 69)]%N = true.
+Definition int_form (v : list N) : Prop :=
+  exists sg ip ex, v = sg ++ ip ++ ex /\ sgn sg /\ digs ip /\ (ex = [] \/ exists e pl ed, ex = e :: pl ++ ed /\ eEc e /\ (pl = [] \/ pl = [43%N]) /\ digs ed).
+Definition float_form (v : list N) : Prop :=
+  exists sg ip, sgn sg /\ digs ip /\
+    ((exists fp ex, v = sg ++ ip ++ 46%N :: fp ++ ex /\ digs fp /\ (ex = [] \/ exists e pm ed, ex = e :: pm ++ ed /\ eEc e /\ (pm = [] \/ pm = [43%N] \/ pm = [45%N]) /\ digs ed))
+     \/ (exists e ed, v = sg ++ ip ++ e :: 45%N :: ed /\ eEc e /\ digs ed)).
+
+Lemma lang_eEc s : lang re_eE s -> exists e, s = [e] /\ eEc e.
+Proof. intros H. apply lang_eE in H as [-> | ->]; eexists; split; reflexivity. Qed.
+
+Lemma lang_int_form v : lang RE_INT v -> int_form v.
+Proof.
+  intros H. unfold RE_INT in H. apply lang_seq_inv in H as (sg & r1 & -> & Hsg & H). apply lang_seq_inv in H as (ip & ex & -> & Hip & Hex).
+  apply lang_minus_opt in Hsg. apply lang_digits in Hip as [Hne Hd]. exists sg, ip, ex. split; [reflexivity|]. split; [exact Hsg|]. split; [split; assumption|].
+  apply lang_opt_inv in Hex as [Hex | ->]; [|left; reflexivity]. apply lang_seq_inv in Hex as (e & r2 & -> & He & Hex). apply lang_seq_inv in Hex as (pl & ed & -> & Hps & Hed).
+  apply lang_digits in Hed as [Hen Hedd]. right. apply lang_eEc in He as (e0 & -> & He). apply lang_opt_inv in Hps.
+  exists e0, pl, ed. split; [reflexivity|]. split; [exact He|]. split; [|split; assumption].
+  destruct Hps as [Hps | ->]; [right; apply lang_char_inv; exact Hps | left; reflexivity].
+Qed.
+
+Lemma lang_float_form v : lang RE_FLOAT v -> (forall r, v <> 58%N :: r) -> float_form v.
+Proof.
+  intros H Hn. unfold RE_FLOAT in H. apply lang_alt_inv in H as [H | H].
+  - apply lang_seq_inv in H as (oc & r0 & -> & Hoc & H). apply lang_opt_inv in Hoc as [Hoc | ->].
+    { apply lang_char_inv in Hoc. subst oc. exfalso. apply (Hn r0). reflexivity. }
+    cbn [app] in *. apply lang_seq_inv in H as (sg & r1 & -> & Hsg & H). apply lang_seq_inv in H as (ip & r2 & -> & Hip & H).
+    apply lang_seq_inv in H as (dot & r3 & -> & Hdot & H). apply lang_seq_inv in H as (fp & ex & -> & Hfp & Hex).
+    apply lang_minus_opt in Hsg. apply lang_digits in Hip as [Hne Hd]. apply lang_char_inv in Hdot. subst dot. apply lang_digits in Hfp as [Hfn Hfd].
+    exists sg, ip. split; [exact Hsg|]. split; [split; assumption|]. left. exists fp, ex. split; [reflexivity|]. split; [split; assumption|].
+    apply lang_opt_inv in Hex as [Hex | ->]; [|left; reflexivity]. apply lang_seq_inv in Hex as (e & r4 & -> & He & Hex). apply lang_seq_inv in Hex as (pl & ed & -> & Hps & Hed).
+    apply lang_digits in Hed as [Hen Hedd]. right. apply lang_eEc in He as (e0 & -> & He). apply lang_opt_inv in Hps.
+    assert (Hps' : pl = [] \/ pl = [43%N] \/ pl = [45%N]).
+    { destruct Hps as [Hps | ->]; [|left; reflexivity]. apply lang_cls_inv in Hps as (c & -> & Hc). cbn [xorb in_ranges] in Hc.
+      destruct (N.leb_spec 43 c), (N.leb_spec c 43), (N.leb_spec 45 c), (N.leb_spec c 45); cbn in Hc; try discriminate Hc;
+        first [right; left; f_equal; lia | right; right; f_equal; lia]. }
+    exists e0, pl, ed. split; [reflexivity|]. split; [exact He|]. split; [exact Hps'|]. split; assumption.
+  - apply lang_seq_inv in H as (sg & r1 & -> & Hsg & H). apply lang_seq_inv in H as (ip & r2 & -> & Hip & H).
+    apply lang_seq_inv in H as (e & r3 & -> & He & H). apply lang_seq_inv in H as (mi & ed & -> & Hmi & Hed).
+    apply lang_minus_opt in Hsg. apply lang_digits in Hip as [Hne Hd]. apply lang_eEc in He as (e0 & -> & He). apply lang_char_inv in Hmi. subst mi. apply lang_digits in Hed as [Hen Hedd].
+    exists sg, ip. split; [exact Hsg|]. split; [split; assumption|]. right. exists e0, ed. split; [reflexivity|]. split; [exact He | split; assumption].
+Qed.
+
+Lemma digs_cons l : digs l -> exists d ds, l = d :: ds /\ isd d = true /\ forallb isd ds = true.
+Proof. intros [Hne Hd]. destruct l as [|d ds]; [congruence|]. cbn [forallb] in Hd. apply andb_true_iff in Hd as [H1 H2]. exists d, ds. repeat split; assumption. Qed.
+
+Lemma int_form_head v : int_form v -> exists c0 w', v = c0 :: w' /\ (c0 = 45%N \/ isd c0 = true).
+Proof.
+  intros (sg & ip & ex & -> & Hs & Hip & _). destruct (digs_cons ip Hip) as (d & ds & -> & Hd & _).
+  destruct Hs as [-> | ->]; cbn [app]; eexists; eexists; (split; [reflexivity|]); [right; exact Hd | left; reflexivity].
+Qed.
+Lemma float_form_head v : float_form v -> exists c0 w', v = c0 :: w' /\ (c0 = 45%N \/ isd c0 = true).
+Proof.
+  intros (sg & ip & Hs & Hip & Hv). destruct (digs_cons ip Hip) as (d & ds & -> & Hd & _).
+  destruct Hv as [(fp & ex & -> & _) | (e & ed & -> & _)]; destruct Hs as [-> | ->]; cbn [app]; eexists; eexists; (split; [reflexivity|]); first [right; exact Hd | left; reflexivity].
+Qed.
+
+Lemma zlen_app (a b : list N) : zlen (a ++ b) = zlen a + zlen b.
+Proof. unfold zlen. rewrite app_length. lia. Qed.
+Lemma zlen_cons (c : N) (b : list N) : zlen (c :: b) = 1 + zlen b.
+Proof. unfold zlen. cbn [length]. lia. Qed.
+
+Lemma int_form_match v c r : int_form v -> numfol c -> re_match RE_FLOAT (v ++ c :: r) = None /\ re_match RE_INT (v ++ c :: r) = Some (zlen v).
+Proof.
+  intros (sg & ip & ex & -> & Hs & Hip & Hex) Hc. destruct Hex as [-> | (e & pl & ed & -> & He & Hps & Hed)].
+  - rewrite app_nil_r. destruct Hip as [Hne Hd]. split; [apply float_nomatch_g | apply int_match_g]; assumption.
+  - destruct (digs_cons ip Hip) as (d & ds & -> & Hd1 & Hd2). destruct (digs_cons ed Hed) as (f & fs & -> & Hf1 & Hf2).
+    replace ((sg ++ (d :: ds) ++ e :: pl ++ f :: fs) ++ c :: r) with (sg ++ (d :: ds) ++ e :: pl ++ (f :: fs) ++ c :: r) by (rewrite <- !app_assoc; cbn [app]; rewrite <- !app_assoc; reflexivity).
+    split.
+    + replace (sg ++ (d :: ds) ++ e :: pl ++ (f :: fs) ++ c :: r) with (sg ++ (d :: ds) ++ e :: pl ++ f :: fs ++ c :: r) by reflexivity. apply float_nomatch_e; assumption.
+    + unfold re_match. fold kid. rewrite (int_exp_rm sg d ds e pl f fs c r Hs Hd1 Hd2 He Hps Hf1 Hf2 (proj1 Hc)).
+      * f_equal. repeat (progress (rewrite ?zlen_app, ?zlen_cons)). clear. lia.
+      * clear. repeat (progress (rewrite ?app_length; cbn [length])). lia.
+Qed.
+
+Lemma float_form_match v c r : float_form v -> numfol c -> re_match RE_FLOAT (v ++ c :: r) = Some (zlen v).
+Proof.
+  intros (sg & ip & Hs & Hip & Hv) Hc. destruct (digs_cons ip Hip) as (d & ds & -> & Hd1 & Hd2).
+  destruct Hv as [(fp & ex & -> & Hfp & Hex) | (e & ed & -> & He & Hed)].
+  - destruct (digs_cons fp Hfp) as (f & fs & -> & Hf1 & Hf2). destruct Hex as [-> | (e & pm & ed & -> & He & Hpm & Hed)].
+    + rewrite app_nil_r. apply float_match_g; try assumption; try discriminate. cbn [forallb]. rewrite Hd1, Hd2. reflexivity. cbn [forallb]. rewrite Hf1, Hf2. reflexivity.
+    + destruct (digs_cons ed Hed) as (g & gs & -> & Hg1 & Hg2).
+      replace ((sg ++ (d :: ds) ++ 46%N :: (f :: fs) ++ e :: pm ++ g :: gs) ++ c :: r) with (sg ++ (d :: ds) ++ 46%N :: (f :: fs) ++ (e :: pm ++ (g :: gs) ++ c :: r))
+        by (rewrite <- ?app_assoc; cbn [app]; rewrite <- ?app_assoc; cbn [app]; rewrite <- ?app_assoc; reflexivity).
+      unfold re_match. fold kid.
+      destruct (digit_facts g Hg1) as (Eg & _). destruct (d_signs g Hg1) as [_ Hg43]. destruct (eE_facts e He) as [HeD _].
+      rewrite (float1_rm sg d ds f fs (e :: pm ++ (g :: gs) ++ c :: r) (zlen (sg ++ (d :: ds) ++ 46%N :: (f :: fs) ++ e :: pm ++ g :: gs)) Hs Hd1 Hd2 Hf1 Hf2 HeD (length gs + 12)%nat).
+      * reflexivity.
+      * intros G' HG'. unfold re_exp_opt. rewrite (expo_rm [(43, 43); (45, 45)]%N e pm g gs c r G'); try assumption.
+        -- f_equal. repeat (progress (rewrite ?zlen_app, ?zlen_cons)). clear. lia.
+        -- destruct Hpm as [-> | [-> | ->]]; [left; reflexivity | right; exists 43%N; split; reflexivity | right; exists 45%N; split; reflexivity].
+        -- apply isd_dcls. exact Hg2.
+        -- apply nd_facts. apply Hc.
+      * clear. repeat (progress (rewrite ?app_length; cbn [length])). lia.
+  - destruct (digs_cons ed Hed) as (f & fs & -> & Hf1 & Hf2).
+    replace ((sg ++ (d :: ds) ++ e :: 45%N :: f :: fs) ++ c :: r) with (sg ++ (d :: ds) ++ e :: 45%N :: (f :: fs) ++ c :: r) by (rewrite <- ?app_assoc; cbn [app]; rewrite <- ?app_assoc; reflexivity).
+    unfold re_match. fold kid. rewrite (float2_rm sg d ds e f fs c r Hs Hd1 Hd2 He Hf1 Hf2 (proj1 Hc)).
+    + f_equal. repeat (progress (rewrite ?zlen_app, ?zlen_cons)). clear. lia.
+    + clear. repeat (progress (rewrite ?app_length; cbn [length])). lia.
 Qed.
 
 (* ---- the step and reach lemmas of Proofs/LexComplete.v for arbitrary filter stacks and an arbitrary outer bracket stack ---- *)
@@ -308,50 +620,48 @@ Proof.
     rewrite (accept_prefix l2 s_null (x :: r) E). reflexivity.
 Qed.
 
-Lemma sf_int_g fd ffd fcs sign body x r p bs T : (sign = [] \/ sign = [45%N]) -> body <> [] -> forallb isd body = true -> numfol x ->
-  exists q, lex_step Lex.SFilter (GX fd ffd fcs ((sign ++ body) ++ x :: r) [] p p bs T)
-  = LNext Lex.SFilter (GX fd ffd fcs (x :: r) [] q q bs (tk T_INT (sign ++ body) p :: T)).
+Lemma num_head_facts c0 : (c0 = 45%N \/ isd c0 = true) ->
+  in_ranges c0 ws_ranges = false /\ sf_special c0 = false /\ in_ranges c0 cls_fn_first = false /\ 38%N <> c0 /\ 124%N <> c0 /\ 116%N <> c0 /\ 102%N <> c0 /\ 110%N <> c0
+  /\ is_blank c0 = false /\ c0 <> 46%N /\ c0 <> 91%N /\ c0 <> 61%N.
 Proof.
-  intros Hs Hne Hd Hx.
-  assert (Hhd : exists c0 w', sign ++ body = c0 :: w' /\ (c0 = 45%N \/ isd c0 = true)).
-  { destruct Hs as [-> | ->]; cbn [app].
-    - destruct body as [|b body']; [congruence|]. cbn [forallb] in Hd. apply andb_true_iff in Hd as [Hb _]. exists b, body'. split; [reflexivity | right; exact Hb].
-    - exists 45%N, body. split; [reflexivity | left; reflexivity]. }
-  destruct Hhd as (c0 & w' & Ew & Hc0).
-  assert (Hfacts : in_ranges c0 ws_ranges = false /\ sf_special c0 = false /\ in_ranges c0 cls_fn_first = false /\ 38%N <> c0 /\ 124%N <> c0 /\ 116%N <> c0 /\ 102%N <> c0 /\ 110%N <> c0).
-  { destruct Hc0 as [-> | Hc0]; [repeat split; try reflexivity; discriminate|]. unfold isd in Hc0. unfold sf_special, cls_fn_first. cbn [in_ranges ws_ranges].
-    repeat split; lia. }
-  destruct Hfacts as (F1 & F2 & F3 & F4 & F5 & F6 & F7 & F8).
-  apply (sf_word fd ffd fcs (sign ++ body) c0 w' (x :: r) p bs T T_INT Ew F1 F2).
-  - intros l2 E. rewrite Ew in E. cbn [app] in E. apply (fn_nomatch_l l2 c0 _ E F3).
-  - intros l2 E. pose proof E as E'. rewrite Ew in E'. cbn [app] in E'.
-    rewrite (accept_mismatch l2 38%N [38%N] c0 _ E' F4). rewrite (accept_mismatch l2 124%N [124%N] c0 _ E' F5). unfold s_true, s_false, s_null.
-    rewrite (accept_mismatch l2 116%N [114; 117; 101]%N c0 _ E' F6). rewrite (accept_mismatch l2 102%N [97; 108; 115; 101]%N c0 _ E' F7).
-    rewrite (accept_mismatch l2 110%N [117; 108; 108]%N c0 _ E' F8).
-    unfold l_accept_match. rewrite E. rewrite (float_nomatch_g sign body x r Hs Hne Hd Hx). rewrite (int_match_g sign body x r Hs Hne Hd Hx). reflexivity.
+  intros [-> | Hc0]; [repeat split; try reflexivity; discriminate|]. unfold isd in Hc0. unfold sf_special, cls_fn_first, is_blank. cbn [in_ranges ws_ranges].
+  repeat split; lia.
 Qed.
 
-Lemma sf_float_g fd ffd fcs sign ip fp x r p bs T : (sign = [] \/ sign = [45%N]) -> ip <> [] -> forallb isd ip = true -> fp <> [] -> forallb isd fp = true -> numfol x ->
-  exists q, lex_step Lex.SFilter (GX fd ffd fcs ((sign ++ ip ++ 46%N :: fp) ++ x :: r) [] p p bs T)
-  = LNext Lex.SFilter (GX fd ffd fcs (x :: r) [] q q bs (tk T_FLOAT (sign ++ ip ++ 46%N :: fp) p :: T)).
+Lemma sf_int_g fd ffd fcs w x r p bs T : int_form w -> numfol x ->
+  exists q, lex_step Lex.SFilter (GX fd ffd fcs (w ++ x :: r) [] p p bs T)
+  = LNext Lex.SFilter (GX fd ffd fcs (x :: r) [] q q bs (tk T_INT w p :: T)).
 Proof.
-  intros Hs Hne Hd Hfne Hfd Hx.
-  assert (Hhd : exists c0 w', sign ++ ip ++ 46%N :: fp = c0 :: w' /\ (c0 = 45%N \/ isd c0 = true)).
-  { destruct Hs as [-> | ->]; cbn [app].
-    - destruct ip as [|b ip']; [congruence|]. cbn [forallb] in Hd. apply andb_true_iff in Hd as [Hb _]. exists b, (ip' ++ 46%N :: fp). split; [reflexivity | right; exact Hb].
-    - exists 45%N, (ip ++ 46%N :: fp). split; [reflexivity | left; reflexivity]. }
-  destruct Hhd as (c0 & w' & Ew & Hc0).
-  assert (Hfacts : in_ranges c0 ws_ranges = false /\ sf_special c0 = false /\ in_ranges c0 cls_fn_first = false /\ 38%N <> c0 /\ 124%N <> c0 /\ 116%N <> c0 /\ 102%N <> c0 /\ 110%N <> c0).
-  { destruct Hc0 as [-> | Hc0]; [repeat split; try reflexivity; discriminate|]. unfold isd in Hc0. unfold sf_special, cls_fn_first. cbn [in_ranges ws_ranges].
-    repeat split; lia. }
-  destruct Hfacts as (F1 & F2 & F3 & F4 & F5 & F6 & F7 & F8).
-  apply (sf_word fd ffd fcs (sign ++ ip ++ 46%N :: fp) c0 w' (x :: r) p bs T T_FLOAT Ew F1 F2).
+  intros Hw Hx. destruct (int_form_head w Hw) as (c0 & w' & Ew & Hc0). destruct (int_form_match w x r Hw Hx) as [MF MI].
+  destruct (num_head_facts c0 Hc0) as (F1 & F2 & F3 & F4 & F5 & F6 & F7 & F8 & _).
+  apply (sf_word fd ffd fcs w c0 w' (x :: r) p bs T T_INT Ew F1 F2).
   - intros l2 E. rewrite Ew in E. cbn [app] in E. apply (fn_nomatch_l l2 c0 _ E F3).
   - intros l2 E. pose proof E as E'. rewrite Ew in E'. cbn [app] in E'.
     rewrite (accept_mismatch l2 38%N [38%N] c0 _ E' F4). rewrite (accept_mismatch l2 124%N [124%N] c0 _ E' F5). unfold s_true, s_false, s_null.
     rewrite (accept_mismatch l2 116%N [114; 117; 101]%N c0 _ E' F6). rewrite (accept_mismatch l2 102%N [97; 108; 115; 101]%N c0 _ E' F7).
     rewrite (accept_mismatch l2 110%N [117; 108; 108]%N c0 _ E' F8).
-    unfold l_accept_match. rewrite E. rewrite (float_match_g sign ip fp x r Hs Hne Hd Hfne Hfd Hx). reflexivity.
+    unfold l_accept_match. rewrite E. rewrite MF, MI. reflexivity.
+Qed.
+
+Lemma sf_float_g fd ffd fcs w x r p bs T : float_form w -> numfol x ->
+  exists q, lex_step Lex.SFilter (GX fd ffd fcs (w ++ x :: r) [] p p bs T)
+  = LNext Lex.SFilter (GX fd ffd fcs (x :: r) [] q q bs (tk T_FLOAT w p :: T)).
+Proof.
+  intros Hw Hx. destruct (float_form_head w Hw) as (c0 & w' & Ew & Hc0). pose proof (float_form_match w x r Hw Hx) as MF.
+  destruct (num_head_facts c0 Hc0) as (F1 & F2 & F3 & F4 & F5 & F6 & F7 & F8 & _).
+  apply (sf_word fd ffd fcs w c0 w' (x :: r) p bs T T_FLOAT Ew F1 F2).
+  - intros l2 E. rewrite Ew in E. cbn [app] in E. apply (fn_nomatch_l l2 c0 _ E F3).
+  - intros l2 E. pose proof E as E'. rewrite Ew in E'. cbn [app] in E'.
+    rewrite (accept_mismatch l2 38%N [38%N] c0 _ E' F4). rewrite (accept_mismatch l2 124%N [124%N] c0 _ E' F5). unfold s_true, s_false, s_null.
+    rewrite (accept_mismatch l2 116%N [114; 117; 101]%N c0 _ E' F6). rewrite (accept_mismatch l2 102%N [97; 108; 115; 101]%N c0 _ E' F7).
+    rewrite (accept_mismatch l2 110%N [117; 108; 108]%N c0 _ E' F8).
+    unfold l_accept_match. rewrite E. rewrite MF. reflexivity.
+Qed.
+
+(* the shape of a number token that spells a literal *)
+Lemma float_lit_form v x : pmatch RE_FLOAT v -> py_float v = Some x -> float_form v.
+Proof.
+  intros Ht Hp. apply lang_float_form; [apply pmatch_lang; exact Ht|]. intros r0 ->. unfold py_float in Hp. cbn in Hp. discriminate Hp.
 Qed.
 
 (* comparison operators: two-character ones whatever follows, "<" and ">" unless "=" follows *)
@@ -417,14 +727,6 @@ Proof.
   destruct (Hstep p1) as (q & E). exists q, p1. eapply reachS_trans; [exact R1|]. apply reachS_step. exact E.
 Qed.
 
-(* numbers as the theorem below covers them: sign and digits, or sign, digits, ".", digits *)
-Definition plain_tok (x : token) : Prop :=
-  (ty x = T_INT -> exists sign body, tval x = sign ++ body /\ (sign = [] \/ sign = [45%N]) /\ body <> [] /\ forallb isd body = true) /\
-  (ty x = T_FLOAT -> exists sign ip fp, tval x = sign ++ ip ++ 46%N :: fp /\ (sign = [] \/ sign = [45%N]) /\ ip <> [] /\ forallb isd ip = true /\ fp <> [] /\ forallb isd fp = true).
-Definition plain (t : list token) : Prop := Forall plain_tok t.
-Lemma plain_app t1 t2 : plain (t1 ++ t2) -> plain t1 /\ plain t2.
-Proof. apply Forall_app. Qed.
-
 Lemma sf_dquote fd ffd fcs r p bs T : lex_step Lex.SFilter (GX fd ffd fcs (34%N :: r) [] p p bs T) = LNext (SString 34 true) (GX fd ffd fcs r [34%N] p (p + 1) bs T).
 Proof. cbn [lex_step]. rewrite ignore_ws_nonws by reflexivity. reflexivity. Qed.
 
@@ -452,31 +754,31 @@ Lemma fol_cb_sel fr : fol_cb fr -> fol_sel fr.
 Proof. intros (b & c & r & -> & Hb & Hc). apply fol_blank; [exact Hb | destruct Hc as [-> | ->]; reflexivity]. Qed.
 
 Definition F_QT (q : list seg) (t : list token) : Prop :=
-  forall a z a' fr p bs T, okS a -> am a = MSeg -> sc z -> plain t -> RunT a t z a' -> nn_head fr ->
+  forall a z a' fr p bs T, okS a -> am a = MSeg -> sc z -> RunT a t z a' -> nn_head fr ->
     exists t' p', reachS SSegment (LA a (z ++ fr) p bs T) SSegment (LA a fr p' bs (rev t' ++ T)) /\ QT q t' /\ (z = [] \/ seg_hd z).
 Definition F_SegT (g : seg) (t : list token) : Prop :=
-  forall a z a' fr p bs T, okS a -> am a = MSeg -> sc z -> plain t -> RunT a t z a' -> nn_head fr ->
+  forall a z a' fr p bs T, okS a -> am a = MSeg -> sc z -> RunT a t z a' -> nn_head fr ->
     exists t' p', reachS SSegment (LA a (z ++ fr) p bs T) SSegment (LA a fr p' bs (rev t' ++ T)) /\ SegT g t' /\ seg_hd z.
 Definition F_SelsT (ss : list sel) (t : list token) : Prop :=
-  forall a z a' fr p j bs T, okS a -> am a = MBrk -> sc z -> plain t -> RunT a t z a' -> fol_cb fr ->
+  forall a z a' fr p j bs T, okS a -> am a = MBrk -> sc z -> RunT a t z a' -> fol_cb fr ->
     exists t' p', reachS SBracket (LA a (z ++ fr) p ((91%N, j) :: bs) T) (st_of a') (LA a' fr p' ((91%N, j) :: bs) (rev t' ++ T)) /\ SelsT ss t'.
 Definition F_SelT (s : sel) (t : list token) : Prop :=
-  forall a z a' fr p j bs T, okS a -> am a = MBrk -> sc z -> plain t -> RunT a t z a' -> fol_cb fr ->
+  forall a z a' fr p j bs T, okS a -> am a = MBrk -> sc z -> RunT a t z a' -> fol_cb fr ->
     exists t' p', reachS SBracket (LA a (z ++ fr) p ((91%N, j) :: bs) T) (st_of a') (LA a' fr p' ((91%N, j) :: bs) (rev t' ++ T)) /\ SelT s t'.
 Definition F_ET (k : Z) (e : expr) (t : list token) : Prop :=
-  forall a z a' fr p bs T, okS a -> 1 <= afd a -> fl a -> sc z -> plain t -> RunT a t z a' -> efol fr ->
+  forall a z a' fr p bs T, okS a -> 1 <= afd a -> fl a -> sc z -> RunT a t z a' -> efol fr ->
     exists t' p', reachS (st_of a) (LA a (z ++ fr) p bs T) (st_of a') (LA a' fr p' bs (rev t' ++ T)) /\ ET k e t'.
 Definition F_CT (e : expr) (t : list token) : Prop :=
-  forall a z a' fr p bs T, okS a -> 1 <= afd a -> fl a -> sc z -> plain t -> RunT a t z a' -> efol fr ->
+  forall a z a' fr p bs T, okS a -> 1 <= afd a -> fl a -> sc z -> RunT a t z a' -> efol fr ->
     exists t' p', reachS (st_of a) (LA a (z ++ fr) p bs T) (st_of a') (LA a' fr p' bs (rev t' ++ T)) /\ CT e t'.
 Definition F_TT (w : ty3) (e : expr) (t : list token) : Prop :=
-  forall a z a' fr p bs T, okS a -> 1 <= afd a -> fl a -> sc z -> plain t -> RunT a t z a' -> efol fr ->
+  forall a z a' fr p bs T, okS a -> 1 <= afd a -> fl a -> sc z -> RunT a t z a' -> efol fr ->
     exists t' p', reachS (st_of a) (LA a (z ++ fr) p bs T) (st_of a') (LA a' fr p' bs (rev t' ++ T)) /\ TT w e t'.
 Definition F_ArgsT (tys : list ty3) (args : list expr) (t : list token) : Prop :=
-  forall a z a' fr p bs T, okS a -> 1 <= afd a -> fl a -> incall a -> sc z -> plain t -> RunT a t z a' -> efol fr ->
+  forall a z a' fr p bs T, okS a -> 1 <= afd a -> fl a -> incall a -> sc z -> RunT a t z a' -> efol fr ->
     exists t' p', reachS (st_of a) (LA a (z ++ fr) p bs T) (st_of a') (LA a' fr p' bs (rev t' ++ T)) /\ ArgsT tys args t'.
 Definition F_ArgT (w : ty3) (e : expr) (t : list token) : Prop :=
-  forall a z a' fr p bs T, okS a -> 1 <= afd a -> fl a -> sc z -> plain t -> RunT a t z a' -> efol fr ->
+  forall a z a' fr p bs T, okS a -> 1 <= afd a -> fl a -> sc z -> RunT a t z a' -> efol fr ->
     exists t' p', reachS (st_of a) (LA a (z ++ fr) p bs T) (st_of a') (LA a' fr p' bs (rev t' ++ T)) /\ ArgT w e t'.
 
 Ltac retext Y := match goal with |- reachS _ (LA _ ?X _ _ _) _ _ => replace X with Y by (cbn [app pre post ty tval tk]; rewrite ?app_nil_r, <- ?app_assoc; cbn [app]; rewrite ?app_nil_r, <- ?app_assoc; reflexivity) end.
@@ -485,9 +787,9 @@ Ltac ftok Hs Hf := apply (fl_step _ _ _ _ Hf) in Hs; [|discriminate|discriminate
 (* ---- literals ---- *)
 Lemma f_ct_lit v t : lit_tok v t -> F_CT (ELit v) [t].
 Proof.
-  intros Hl a z a' fr p bs T Ho Hd Hf Hsc Hpl H Hfr. runc H k0 a1 b z' Hs Hb Hn Ht HR. runnil HR.
+  intros Hl a z a' fr p bs T Ho Hd Hf Hsc H Hfr. runc H k0 a1 b z' Hs Hb Hn Ht HR. runnil HR.
   destruct (efol_head fr Hfr) as (h & r & -> & Hh). destruct (bch_facts h Hh) as (Hnum & Hkw & _ & _).
-  inversion Hpl as [|? ? [Pi Pf] _]; subst.
+ 
   assert (Hscv : sc (tval t)) by (apply (sc_mid (b ++ pre k0 (ty t)) (tval t) (post (ty t) ++ [])); rewrite <- !app_assoc; exact Hsc).
   (* a token read by one step of the filter state, leaving the machine in the filter state with the same stacks *)
   assert (Fin : forall T0 vv c v', ty t = T0 -> tval t = vv -> vv = c :: v' -> is_blank c = false -> c <> 46%N -> c <> 91%N -> pre GBl T0 = [] -> post T0 = [] ->
@@ -513,22 +815,16 @@ Proof.
     destruct (F_str a b q (tval t) (h :: r) p bs T Hf Hb Hq Hlok) as (p' & i & R). exists [tk (tt_of q) (tval t) i], p'. split.
     + cbn [rev app]. rewrite Ety. destruct (qtt_pre q Hq) as [E1 E2]. fold (tt_of q) in E1, E2. rewrite E1, E2. retext (b ++ [q] ++ tval t ++ [q] ++ h :: r). exact R.
     + constructor. right. right. right. left. split; [unfold tk, tt_of; cbn [ty]; destruct (N.eqb q 39); [left | right]; reflexivity|]. exists s0. split; [apply Hdec' | exact Ev].
-  - destruct (Pi E) as (sign & body & Etv & Hsg & Hbne & Hbd). rewrite E in Ht, Hs. cbn [tshape] in Ht. ftok Hs Hf.
-    assert (Hhd : exists c v', sign ++ body = c :: v' /\ is_blank c = false /\ c <> 46%N /\ c <> 91%N).
-    { destruct body as [|d body']; [congruence|]. cbn [forallb] in Hbd. apply andb_true_iff in Hbd as [Hd1 _]. unfold isd in Hd1.
-      destruct Hsg as [-> | ->]; cbn [app]; eexists; eexists; (split; [reflexivity|]); unfold is_blank; repeat split; try lia; discriminate. }
-    destruct Hhd as (c & v' & Ecv & C1 & C2 & C3).
-    apply (Fin T_INT (sign ++ body) c v' E Etv Ecv C1 C2 C3); try reflexivity.
-    + intros p1. apply (sf_int_g _ _ _ sign body h r p1 bs T Hsg Hbne Hbd Hnum).
-    + intros i. right. right. right. right. left. cbn [ty tval tk]. rewrite <- Etv. split; [reflexivity|]. split; [exact Hz|]. exists x. split; [exact Hp | reflexivity].
-  - destruct (Pf E) as (sign & ip & fp & Etv & Hsg & Hine & Hid & Hfne & Hfd). rewrite E in Ht, Hs. cbn [tshape] in Ht. ftok Hs Hf.
-    assert (Hhd : exists c v', sign ++ ip ++ 46%N :: fp = c :: v' /\ is_blank c = false /\ c <> 46%N /\ c <> 91%N).
-    { destruct ip as [|d ip']; [congruence|]. cbn [forallb] in Hid. apply andb_true_iff in Hid as [Hd1 _]. unfold isd in Hd1.
-      destruct Hsg as [-> | ->]; cbn [app]; eexists; eexists; (split; [reflexivity|]); unfold is_blank; repeat split; try lia; discriminate. }
-    destruct Hhd as (c & v' & Ecv & C1 & C2 & C3).
-    apply (Fin T_FLOAT (sign ++ ip ++ 46%N :: fp) c v' E Etv Ecv C1 C2 C3); try reflexivity.
-    + intros p1. apply (sf_float_g _ _ _ sign ip fp h r p1 bs T Hsg Hine Hid Hfne Hfd Hnum).
-    + intros i. right. right. right. right. right. cbn [ty tval tk]. rewrite <- Etv. split; [reflexivity|]. split; [exact Hz|]. exists x. split; [exact Hp | reflexivity].
+  - rewrite E in Ht, Hs. cbn [tshape] in Ht. ftok Hs Hf. pose proof (lang_int_form _ (pmatch_lang _ _ Ht)) as Hform.
+    destruct (int_form_head _ Hform) as (c & v' & Ecv & Hc0). destruct (num_head_facts c Hc0) as (_ & _ & _ & _ & _ & _ & _ & _ & C1 & C2 & C3 & _).
+    apply (Fin T_INT (tval t) c v' E eq_refl Ecv C1 C2 C3); try reflexivity.
+    + intros p1. apply (sf_int_g _ _ _ (tval t) h r p1 bs T Hform Hnum).
+    + intros i. right. right. right. right. left. cbn [ty tval tk]. split; [reflexivity|]. split; [exact Hz|]. exists x. split; [exact Hp | reflexivity].
+  - rewrite E in Ht, Hs. cbn [tshape] in Ht. ftok Hs Hf. pose proof (float_lit_form _ x Ht Hp) as Hform.
+    destruct (float_form_head _ Hform) as (c & v' & Ecv & Hc0). destruct (num_head_facts c Hc0) as (_ & _ & _ & _ & _ & _ & _ & _ & C1 & C2 & C3 & _).
+    apply (Fin T_FLOAT (tval t) c v' E eq_refl Ecv C1 C2 C3); try reflexivity.
+    + intros p1. apply (sf_float_g _ _ _ (tval t) h r p1 bs T Hform Hnum).
+    + intros i. right. right. right. right. right. cbn [ty tval tk]. split; [reflexivity|]. split; [exact Hz|]. exists x. split; [exact Hp | reflexivity].
 Qed.
 
 (* what Proofs/TextSound.v says about the abstract states along a derivation *)
@@ -545,7 +841,7 @@ Lemma gs_arg w e t : ArgT w e t -> P_ArgT w e t. Proof. apply (proj2 (proj2 (pro
 (* ---- segments ---- *)
 Lemma f_sg_prop k i : F_SegT (Child [SName k]) [tk T_PROPERTY k i].
 Proof.
-  intros a z a' fr p bs T Ho Hm Hsc Hpl H Hf. runc H k0 a1 b z' Hs Hb Hn Ht HR. runnil HR. stepM Hs Hm.
+  intros a z a' fr p bs T Ho Hm Hsc H Hf. runc H k0 a1 b z' Hs Hb Hn Ht HR. runnil HR. stepM Hs Hm.
   destruct (R_prop_g (afd a) (affd a) (afcs a) b k fr p T bs Hb (lang_name k (pmatch_lang _ _ Ht)) Hf) as (p' & i' & R). exists [tk T_PROPERTY k i'], p'. split; [|split].
   - cbn [rev app]. retext (b ++ [46%N] ++ k ++ fr). exact R.
   - constructor.
@@ -553,7 +849,7 @@ Proof.
 Qed.
 Lemma f_sg_wild v i : F_SegT (Child [SWild]) [tk T_WILD v i].
 Proof.
-  intros a z a' fr p bs T Ho Hm Hsc Hpl H Hf. runc H k0 a1 b z' Hs Hb Hn Ht HR. runnil HR. stepM Hs Hm.
+  intros a z a' fr p bs T Ho Hm Hsc H Hf. runc H k0 a1 b z' Hs Hb Hn Ht HR. runnil HR. stepM Hs Hm.
   destruct (R_wild_sh_g (afd a) (affd a) (afcs a) b fr p T bs Hb) as (p' & i' & R). exists [tk T_WILD [42%N] i'], p'. split; [|split].
   - cbn [rev app]. retext (b ++ [46%N] ++ [42%N] ++ fr). exact R.
   - constructor.
@@ -584,23 +880,23 @@ Qed.
 Lemma fol_cb_rb b r : blanks b -> fol_cb (b ++ [93%N] ++ r).
 Proof. intros Hb. exists b, 93%N, r. split; [reflexivity|]. split; [exact Hb | right; reflexivity]. Qed.
 
-Lemma f_close ss t v i : SelsT ss t -> F_SelsT ss t -> forall a z a' fr p j bs T, okS a -> am a = MBrk -> sc z -> plain (t ++ [tk T_RBRACKET v i]) -> RunT a (t ++ [tk T_RBRACKET v i]) z a' ->
+Lemma f_close ss t v i : SelsT ss t -> F_SelsT ss t -> forall a z a' fr p j bs T, okS a -> am a = MBrk -> sc z -> RunT a (t ++ [tk T_RBRACKET v i]) z a' ->
   exists t' p' i', reachS SBracket (LA a (z ++ fr) p ((91%N, j) :: bs) T) SSegment (LA (amode_set a MSeg) fr p' bs (tk T_RBRACKET [93%N] i' :: rev t' ++ T)) /\ SelsT ss t' /\ a' = amode_set a MSeg.
 Proof.
-  intros HS0 IH a z a' fr p j bs T Ho Hm Hsc Hpl H. apply RunT_app in H as (z1 & z2 & a1 & -> & H1 & H2). apply sc_app in Hsc as [Hsc1 Hsc2]. apply plain_app in Hpl as [Hpl1 _].
+  intros HS0 IH a z a' fr p j bs T Ho Hm Hsc H. apply RunT_app in H as (z1 & z2 & a1 & -> & H1 & H2). apply sc_app in Hsc as [Hsc1 Hsc2].
   destruct (gs_sels ss t HS0 a z1 a1 Ho Hm Hsc1 H1) as (Has & _).
   runc H2 k0 a2 b2 z' Hs Hb2 Hn Ht HR. runnil HR. destruct (after_sel_steps a a1 Hm Has) as [_ E].
   assert (k0 = GBl /\ a2 = amode_set a MSeg) as [-> ->] by (rewrite E in Hs; inversion Hs; split; reflexivity). subst v.
-  destruct (IH a z1 a1 ((b2 ++ [93%N] ++ fr)) p j bs T Ho Hm Hsc1 Hpl1 H1 (fol_cb_rb b2 fr Hb2)) as (t' & p1 & R1 & HS).
+  destruct (IH a z1 a1 ((b2 ++ [93%N] ++ fr)) p j bs T Ho Hm Hsc1 H1 (fol_cb_rb b2 fr Hb2)) as (t' & p1 & R1 & HS).
   destruct (rd_rb a a1 b2 fr p1 j bs (rev t' ++ T) Hm Has Hb2) as (p2 & i2 & R2). exists t', p2, i2. split; [|split; [exact HS | reflexivity]].
   eapply reachS_trans; [|exact R2]. retext (z1 ++ b2 ++ [93%N] ++ fr). exact R1.
 Qed.
 
 Lemma f_sg_br ss t v1 i1 v2 i2 : SelsT ss t -> F_SelsT ss t -> F_SegT (Child ss) (tk T_LBRACKET v1 i1 :: t ++ [tk T_RBRACKET v2 i2]).
 Proof.
-  intros HS0 IH a z a' fr p bs T Ho Hm Hsc Hpl H Hf. runc H k0 a1 b z' Hs Hb Hn Ht HR. stepM Hs Hm. do 4 (apply sc_app in Hsc as [_ Hsc]). inversion Hpl as [|? ? _ Hpl']; subst.
+  intros HS0 IH a z a' fr p bs T Ho Hm Hsc H Hf. runc H k0 a1 b z' Hs Hb Hn Ht HR. stepM Hs Hm. do 4 (apply sc_app in Hsc as [_ Hsc]).
   destruct (R_lb_g (afd a) (affd a) (afcs a) b (z' ++ fr) p T bs Hb) as (p1 & i1' & j & R1).
-  destruct (f_close ss t v2 i2 HS0 IH (amode_set a MBrk) z' a' fr p1 j bs (tk T_LBRACKET [91%N] i1' :: T) (okS_same _ _ (same_stk_mode a MBrk) Ho) eq_refl Hsc Hpl' HR) as (t' & p2 & i2' & R2 & HS & ->).
+  destruct (f_close ss t v2 i2 HS0 IH (amode_set a MBrk) z' a' fr p1 j bs (tk T_LBRACKET [91%N] i1' :: T) (okS_same _ _ (same_stk_mode a MBrk) Ho) eq_refl Hsc HR) as (t' & p2 & i2' & R2 & HS & ->).
   exists (tk T_LBRACKET [91%N] i1' :: t' ++ [tk T_RBRACKET [93%N] i2']), p2. split; [|split].
   - rewrite rev3. eapply reachS_trans; [|exact R2]. retext (b ++ [91%N] ++ z' ++ fr). exact R1.
   - constructor. exact HS.
@@ -608,7 +904,7 @@ Proof.
 Qed.
 Lemma f_sg_dprop k i v0 i0 : F_SegT (Desc [SName k]) [tk T_DOUBLE_DOT v0 i0; tk T_PROPERTY k i].
 Proof.
-  intros a z a' fr p bs T Ho Hm Hsc Hpl H Hf. runc H k0 a1 b z' Hs Hb Hn Ht HR. destruct (step_dd a k0 a1 Hm Hs) as [-> ->]. try subst v0.
+  intros a z a' fr p bs T Ho Hm Hsc H Hf. runc H k0 a1 b z' Hs Hb Hn Ht HR. destruct (step_dd a k0 a1 Hm Hs) as [-> ->]. try subst v0.
   runc HR k1 a2 b1 z'' Hs1 Hb1 Hn1 Ht1 HR1. runnil HR1. unfold astep in Hs1. cbn in Hs1. inversion Hs1; subst. rewrite (Hn1 eq_refl).
   destruct (R_dd_g (afd a) (affd a) (afcs a) b (k ++ fr) p T bs Hb) as (p1 & i1 & R1).
   destruct (D_prop_g (afd a) (affd a) (afcs a) k fr p1 (tk T_DOUBLE_DOT [46; 46]%N i1 :: T) bs (lang_name k (pmatch_lang _ _ Ht1)) Hf) as (p2 & i2 & R2).
@@ -619,7 +915,7 @@ Proof.
 Qed.
 Lemma f_sg_dwild v i v0 i0 : F_SegT (Desc [SWild]) [tk T_DOUBLE_DOT v0 i0; tk T_WILD v i].
 Proof.
-  intros a z a' fr p bs T Ho Hm Hsc Hpl H Hf. runc H k0 a1 b z' Hs Hb Hn Ht HR. destruct (step_dd a k0 a1 Hm Hs) as [-> ->]. try subst v0.
+  intros a z a' fr p bs T Ho Hm Hsc H Hf. runc H k0 a1 b z' Hs Hb Hn Ht HR. destruct (step_dd a k0 a1 Hm Hs) as [-> ->]. try subst v0.
   runc HR k1 a2 b1 z'' Hs1 Hb1 Hn1 Ht1 HR1. runnil HR1. unfold astep in Hs1. cbn in Hs1. inversion Hs1; subst. rewrite (Hn1 eq_refl). try subst v.
   destruct (R_dd_g (afd a) (affd a) (afcs a) b ([42%N] ++ fr) p T bs Hb) as (p1 & i1 & R1).
   destruct (D_wild_g (afd a) (affd a) (afcs a) fr p1 (tk T_DOUBLE_DOT [46; 46]%N i1 :: T) bs) as (p2 & i2 & R2).
@@ -630,12 +926,12 @@ Proof.
 Qed.
 Lemma f_sg_dbr ss t v0 i0 v1 i1 v2 i2 : SelsT ss t -> F_SelsT ss t -> F_SegT (Desc ss) (tk T_DOUBLE_DOT v0 i0 :: tk T_LBRACKET v1 i1 :: t ++ [tk T_RBRACKET v2 i2]).
 Proof.
-  intros HS0 IH a z a' fr p bs T Ho Hm Hsc Hpl H Hf. runc H k0 a1 b z' Hs Hb Hn Ht HR. destruct (step_dd a k0 a1 Hm Hs) as [-> ->]. try subst v0.
+  intros HS0 IH a z a' fr p bs T Ho Hm Hsc H Hf. runc H k0 a1 b z' Hs Hb Hn Ht HR. destruct (step_dd a k0 a1 Hm Hs) as [-> ->]. try subst v0.
   runc HR k1 a2 b1 z'' Hs1 Hb1 Hn1 Ht1 HR1. unfold astep in Hs1. cbn in Hs1. inversion Hs1; subst. rewrite (Hn1 eq_refl). try subst v1. do 8 (apply sc_app in Hsc as [_ Hsc]).
-  inversion Hpl as [|? ? _ Hpl1]; subst. inversion Hpl1 as [|? ? _ Hpl2]; subst.
+ 
   destruct (R_dd_g (afd a) (affd a) (afcs a) b ([91%N] ++ z'' ++ fr) p T bs Hb) as (p1 & i1' & R1).
   destruct (D_lb_g (afd a) (affd a) (afcs a) (z'' ++ fr) p1 (tk T_DOUBLE_DOT [46; 46]%N i1' :: T) bs) as (p2 & i2' & j & R2).
-  destruct (f_close ss t v2 i2 HS0 IH (amode_set (amode_set a MDesc) MBrk) z'' a' fr p2 j bs (tk T_LBRACKET [91%N] i2' :: tk T_DOUBLE_DOT [46; 46]%N i1' :: T) (okS_same _ _ (same_stk_mode a MBrk) Ho) eq_refl Hsc Hpl2 HR1)
+  destruct (f_close ss t v2 i2 HS0 IH (amode_set (amode_set a MDesc) MBrk) z'' a' fr p2 j bs (tk T_LBRACKET [91%N] i2' :: tk T_DOUBLE_DOT [46; 46]%N i1' :: T) (okS_same _ _ (same_stk_mode a MBrk) Ho) eq_refl Hsc HR1)
     as (t' & p3 & i3' & R3 & HS & ->).
   exists (tk T_DOUBLE_DOT [46; 46]%N i1' :: tk T_LBRACKET [91%N] i2' :: t' ++ [tk T_RBRACKET [93%N] i3']), p3. split; [|split].
   - assert (Etoks : rev (tk T_DOUBLE_DOT [46; 46]%N i1' :: tk T_LBRACKET [91%N] i2' :: t' ++ [tk T_RBRACKET [93%N] i3']) ++ T
@@ -647,16 +943,16 @@ Proof.
 Qed.
 
 Lemma f_qt_nil : F_QT [] [].
-Proof. intros a z a' fr p bs T Ho Hm Hsc Hpl H Hf. runnil H. exists [], p. split; [apply reachS_refl|]. split; [constructor | left; reflexivity]. Qed.
+Proof. intros a z a' fr p bs T Ho Hm Hsc H Hf. runnil H. exists [], p. split; [apply reachS_refl|]. split; [constructor | left; reflexivity]. Qed.
 Lemma f_qt_cons g tg q tq : SegT g tg -> F_SegT g tg -> F_QT q tq -> F_QT (g :: q) (tg ++ tq).
 Proof.
-  intros HG Hg Hq a z a' fr p bs T Ho Hm Hsc Hpl H Hf.
-  apply RunT_app in H as (z1 & z2 & a1 & -> & H1 & H2). apply sc_app in Hsc as [Hsc1 Hsc2]. apply plain_app in Hpl as [Hpl1 Hpl2].
+  intros HG Hg Hq a z a' fr p bs T Ho Hm Hsc H Hf.
+  apply RunT_app in H as (z1 & z2 & a1 & -> & H1 & H2). apply sc_app in Hsc as [Hsc1 Hsc2].
   destruct (gs_seg g tg HG a z1 a1 Ho Hm Hsc1 H1) as (-> & _).
   assert (Hf1 : nn_head (z2 ++ fr)).
-  { destruct (Hq a z2 a' fr p bs T Ho Hm Hsc2 Hpl2 H2 Hf) as (_ & _ & _ & _ & [-> | Hh]); [exact Hf | apply seg_hd_nn; exact Hh]. }
-  destruct (Hg a z1 a (z2 ++ fr) p bs T Ho Hm Hsc1 Hpl1 H1 Hf1) as (t1 & p1 & R1 & HS1 & Hh1).
-  destruct (Hq a z2 a' fr p1 bs (rev t1 ++ T) Ho Hm Hsc2 Hpl2 H2 Hf) as (t2 & p2 & R2 & HQ2 & _).
+  { destruct (Hq a z2 a' fr p bs T Ho Hm Hsc2 H2 Hf) as (_ & _ & _ & _ & [-> | Hh]); [exact Hf | apply seg_hd_nn; exact Hh]. }
+  destruct (Hg a z1 a (z2 ++ fr) p bs T Ho Hm Hsc1 H1 Hf1) as (t1 & p1 & R1 & HS1 & Hh1).
+  destruct (Hq a z2 a' fr p1 bs (rev t1 ++ T) Ho Hm Hsc2 H2 Hf) as (t2 & p2 & R2 & HQ2 & _).
   exists (t1 ++ t2), p2. split; [|split].
   - rewrite rev_app_distr, <- !app_assoc. eapply reachS_trans; [exact R1 | exact R2].
   - constructor; assumption.
@@ -668,7 +964,7 @@ Lemma st_of_brk a : am a = MBrk -> st_of a = SBracket. Proof. intros H. unfold s
 
 Lemma f_name t k : (ty t = T_SQ_STRING \/ ty t = T_DQ_STRING) -> decode_string_literal t = Ok k -> F_SelT (SName k) [t].
 Proof.
-  intros Hty Hd a z a' fr p j bs T Ho Hm Hsc Hpl H Hf. runc H k0 a1 b z' Hs Hb Hn Ht HR. runnil HR.
+  intros Hty Hd a z a' fr p j bs T Ho Hm Hsc H Hf. runc H k0 a1 b z' Hs Hb Hn Ht HR. runnil HR.
   assert (Hs' : k0 = GBl /\ a1 = a) by (unfold astep in Hs; rewrite Hm in Hs; destruct Hty as [E | E]; rewrite E in Hs; inversion Hs; split; reflexivity).
   destruct Hs' as [-> ->]. rewrite (st_of_brk a Hm).
   assert (Hscv : sc (tval t)) by (apply (sc_mid (b ++ pre GBl (ty t)) (tval t) (post (ty t) ++ [])); rewrite <- !app_assoc; exact Hsc).
@@ -679,7 +975,7 @@ Proof.
 Qed.
 Lemma f_index ds j0 i : int_text_ok ds i -> in_range cfg i = true -> F_SelT (SIndex i) [tk T_INDEX ds j0].
 Proof.
-  intros Hi Hr a z a' fr p j bs T Ho Hm Hsc Hpl H Hf. destruct (fol_cb_sel fr Hf) as (c & r & -> & Hc). runc H k0 a1 b z' Hs Hb Hn Ht HR. runnil HR.
+  intros Hi Hr a z a' fr p j bs T Ho Hm Hsc H Hf. destruct (fol_cb_sel fr Hf) as (c & r & -> & Hc). runc H k0 a1 b z' Hs Hb Hn Ht HR. runnil HR.
   assert (k0 = GBl /\ a1 = a) as [-> ->] by (unfold astep in Hs; rewrite Hm in Hs; cbn in Hs; inversion Hs; split; reflexivity). rewrite (st_of_brk a Hm).
   destruct (B_int_g (afd a) (affd a) (afcs a) b ds i c r p ((91%N, j) :: bs) T Hb Hi Hc) as (p' & i' & R). exists [tk T_INDEX ds i'], p'. split.
   - cbn [rev app]. retext (b ++ ds ++ c :: r). exact R.
@@ -687,7 +983,7 @@ Proof.
 Qed.
 Lemma f_wild v i : F_SelT SWild [tk T_WILD v i].
 Proof.
-  intros a z a' fr p j bs T Ho Hm Hsc Hpl H Hf. runc H k0 a1 b z' Hs Hb Hn Ht HR. runnil HR.
+  intros a z a' fr p j bs T Ho Hm Hsc H Hf. runc H k0 a1 b z' Hs Hb Hn Ht HR. runnil HR.
   assert (k0 = GBl /\ a1 = a) as [-> ->] by (unfold astep in Hs; rewrite Hm in Hs; cbn in Hs; inversion Hs; split; reflexivity). rewrite (st_of_brk a Hm). subst v.
   destruct (B_char_g (afd a) (affd a) (afcs a) b 42 T_WILD fr p ((91%N, j) :: bs) T Hb (or_introl (conj eq_refl eq_refl))) as (p' & i' & R). exists [tk T_WILD [42%N] i'], p'. split.
   - cbn [rev app]. retext (b ++ [42%N] ++ fr). exact R.
@@ -696,11 +992,11 @@ Qed.
 
 Lemma f_filter e t v i : F_ET 3 e t -> F_SelT (SFilter e) (tk T_FILTER v i :: t).
 Proof.
-  intros IH a z a' fr p j bs T Ho Hm Hsc Hpl H Hf. runc H k0 a1 b z' Hs Hb Hn Ht HR. stepM Hs Hm. do 4 (apply sc_app in Hsc as [_ Hsc]). inversion Hpl as [|? ? _ Hpl']; subst.
+  intros IH a z a' fr p j bs T Ho Hm Hsc H Hf. runc H k0 a1 b z' Hs Hb Hn Ht HR. stepM Hs Hm. do 4 (apply sc_app in Hsc as [_ Hsc]).
   destruct Ho as (O1 & O2 & O3).
   assert (Ho1 : okS (mkA MFil (afd a + 1) (zlen (afcs a) :: affd a) (afcs a))).
   { split; [exact O1|]. cbn [affd afcs afd]. split; [intros d r E; inversion E; lia | lia]. }
-  destruct (IH _ z' a' fr (p + zlen b + 1) ((91%N, j) :: bs) (tk T_FILTER [63%N] (p + zlen b) :: T) Ho1 ltac:(cbn [afd]; lia) (or_introl eq_refl) Hsc Hpl' HR (fol_cb_efol fr Hf)) as (t' & p' & R & HE).
+  destruct (IH _ z' a' fr (p + zlen b + 1) ((91%N, j) :: bs) (tk T_FILTER [63%N] (p + zlen b) :: T) Ho1 ltac:(cbn [afd]; lia) (or_introl eq_refl) Hsc HR (fol_cb_efol fr Hf)) as (t' & p' & R & HE).
   exists (tk T_FILTER [63%N] (p + zlen b) :: t'), p'. split; [|constructor; exact HE].
   replace (rev (tk T_FILTER [63%N] (p + zlen b) :: t') ++ T) with (rev t' ++ tk T_FILTER [63%N] (p + zlen b) :: T) by (cbn [rev]; rewrite <- app_assoc; reflexivity).
   eapply reachS_trans; [|exact R]. retext (b ++ [63%N] ++ z' ++ fr).
@@ -710,20 +1006,20 @@ Qed.
 
 Lemma f_ss_one s t : F_SelT s t -> F_SelsT [s] t.
 Proof.
-  intros IH a z a' fr p j bs T Ho Hm Hsc Hpl H Hf. destruct (IH a z a' fr p j bs T Ho Hm Hsc Hpl H Hf) as (t' & p' & R & HS). exists t', p'. split; [exact R | constructor; exact HS].
+  intros IH a z a' fr p j bs T Ho Hm Hsc H Hf. destruct (IH a z a' fr p j bs T Ho Hm Hsc H Hf) as (t' & p' & R & HS). exists t', p'. split; [exact R | constructor; exact HS].
 Qed.
 Lemma f_ss_cons s t v i rest trest : SelT s t -> F_SelT s t -> F_SelsT rest trest -> F_SelsT (s :: rest) (t ++ tk T_COMMA v i :: trest).
 Proof.
-  intros HS0 IHs IHr a z a' fr p j bs T Ho Hm Hsc Hpl H Hf.
-  apply RunT_app in H as (z1 & z2 & a1 & -> & H1 & H2). apply sc_app in Hsc as [Hsc1 Hsc2]. apply plain_app in Hpl as [Hpl1 Hpl2]. inversion Hpl2 as [|? ? _ Hpl3]; subst.
+  intros HS0 IHs IHr a z a' fr p j bs T Ho Hm Hsc H Hf.
+  apply RunT_app in H as (z1 & z2 & a1 & -> & H1 & H2). apply sc_app in Hsc as [Hsc1 Hsc2].
   destruct (gs_sel s t HS0 a z1 a1 Ho Hm Hsc1 H1) as (Has & _).
   runc H2 k0 a2 bc z' Hs Hbc Hn Ht HR. destruct (after_sel_steps a a1 Hm Has) as [E _].
   assert (k0 = GBl /\ a2 = a) as [-> ->] by (rewrite E in Hs; inversion Hs; split; reflexivity). subst v.
-  destruct (IHs a z1 a1 (bc ++ [44%N] ++ z' ++ fr) p j bs T Ho Hm Hsc1 Hpl1 H1) as (t1 & p1 & R1 & HS1).
+  destruct (IHs a z1 a1 (bc ++ [44%N] ++ z' ++ fr) p j bs T Ho Hm Hsc1 H1) as (t1 & p1 & R1 & HS1).
   { exists bc, 44%N, (z' ++ fr). split; [reflexivity|]. split; [exact Hbc | left; reflexivity]. }
   destruct (rd_comma a a1 bc (z' ++ fr) p1 j bs (rev t1 ++ T) Hm Has Hbc) as (p2 & i2 & R2).
   do 4 (apply sc_app in Hsc2 as [_ Hsc2]).
-  destruct (IHr a z' a' fr p2 j bs (tk T_COMMA [44%N] i2 :: rev t1 ++ T) Ho Hm Hsc2 Hpl3 HR Hf) as (t2 & p3 & R3 & HS2).
+  destruct (IHr a z' a' fr p2 j bs (tk T_COMMA [44%N] i2 :: rev t1 ++ T) Ho Hm Hsc2 HR Hf) as (t2 & p3 & R3 & HS2).
   exists (t1 ++ tk T_COMMA [44%N] i2 :: t2), p3. split; [|constructor; assumption].
   rewrite rev_snoc_app. eapply reachS_trans; [|exact R3]. eapply reachS_trans; [|exact R2]. retext (z1 ++ bc ++ [44%N] ++ z' ++ fr). exact R1.
 Qed.
@@ -757,7 +1053,7 @@ Proof.
 Qed.
 Lemma f_slice x y c ta tb tc v1 i1 : OptI cfg x ta -> OptI cfg y tb -> StepT cfg c tc -> F_SelT (SSlice x y c) (ta ++ tk T_COLON v1 i1 :: tb ++ tc).
 Proof.
-  intros Hx Hy Hc a z a' fr p j bs T Ho Hm Hsc Hpl H Hf0. pose proof (fol_cb_sel fr Hf0) as Hf. apply RunT_app in H as (za & z2 & a1 & -> & H1 & H2).
+  intros Hx Hy Hc a z a' fr p j bs T Ho Hm Hsc H Hf0. pose proof (fol_cb_sel fr Hf0) as Hf. apply RunT_app in H as (za & z2 & a1 & -> & H1 & H2).
   destruct (run_optI cfg x ta a za a1 Hx Hm H1) as [-> _].
   destruct (run_colon a v1 i1 (tb ++ tc) z2 a' Hm H2) as (b2 & z3 & -> & Hb2 & H3). apply RunT_app in H3 as (zb & zc & a2 & -> & H4 & H5).
   destruct (run_optI cfg y tb a zb a2 Hy Hm H4) as [-> _].
@@ -796,21 +1092,21 @@ Proof.
     apply pmatch_lang in Ht. unfold RE_FUNCTION_NAME in Ht. apply lang_seq_inv in Ht as (s1 & s2 & -> & Hl1 & _). apply lang_cls_inv in Hl1 as (c & -> & Hc).
     exists c, (s2 ++ post T_FUNCTION ++ z'). split; [reflexivity|]. cbn [xorb in_ranges] in Hc. intros ->. discriminate Hc.
 Qed.
-Lemma ct_head e t a z a' : CT e t -> plain t -> fl a -> RunT a t z a' -> ne61 z.
+Lemma ct_head e t a z a' : CT e t -> fl a -> RunT a t z a' -> ne61 z.
 Proof.
-  intros HC Hpl Hf H. inversion HC; subst; [|eapply tt_head; eassumption].
-  runc H k0 a1 b z' Hs Hb Hn Ht HR. inversion Hpl as [|? ? [Pi Pf] _]; subst. apply ne61_blank; [exact Hb|].
-  match goal with Hl : lit_tok _ _ |- _ => destruct Hl as [[E _] | [[E _] | [[E _] | [[Hty _] | [(E & _) | (E & _)]]]]] end.
+  intros HC Hf H. inversion HC; subst; [|eapply tt_head; eassumption].
+  runc H k0 a1 b z' Hs Hb Hn Ht HR. apply ne61_blank; [exact Hb|].
+  match goal with Hl : lit_tok _ _ |- _ => destruct Hl as [[E _] | [[E _] | [[E _] | [[Hty _] | [(E & _) | (E & _ & x & Hp & _)]]]]] end.
   - rewrite E in *. cbn [tshape] in Ht. rewrite Ht. ftok Hs Hf. eexists; eexists. split; [reflexivity | discriminate].
   - rewrite E in *. cbn [tshape] in Ht. rewrite Ht. ftok Hs Hf. eexists; eexists. split; [reflexivity | discriminate].
   - rewrite E in *. cbn [tshape] in Ht. rewrite Ht. ftok Hs Hf. eexists; eexists. split; [reflexivity | discriminate].
   - destruct Hty as [E | E]; rewrite E in *; ftok Hs Hf; eexists; eexists; (split; [reflexivity | discriminate]).
-  - destruct (Pi E) as (sign & body & Etv & Hsg & Hbne & Hbd). rewrite E in Hs. ftok Hs Hf. rewrite E, Etv. cbn [pre app].
-    destruct body as [|d body']; [congruence|]. cbn [forallb] in Hbd. apply andb_true_iff in Hbd as [Hd1 _]. unfold isd in Hd1.
-    destruct Hsg as [-> | ->]; cbn [app]; eexists; eexists; (split; [reflexivity|]); [lia | discriminate].
-  - destruct (Pf E) as (sign & ip & fp & Etv & Hsg & Hine & Hid & _). rewrite E in Hs. ftok Hs Hf. rewrite E, Etv. cbn [pre app].
-    destruct ip as [|d ip']; [congruence|]. cbn [forallb] in Hid. apply andb_true_iff in Hid as [Hd1 _]. unfold isd in Hd1.
-    destruct Hsg as [-> | ->]; cbn [app]; eexists; eexists; (split; [reflexivity|]); [lia | discriminate].
+  - rewrite E in Ht, Hs. cbn [tshape] in Ht. ftok Hs Hf. pose proof (lang_int_form _ (pmatch_lang _ _ Ht)) as Hform.
+    destruct (int_form_head _ Hform) as (c & v' & Ecv & Hc0). destruct (num_head_facts c Hc0) as (_ & _ & _ & _ & _ & _ & _ & _ & _ & _ & _ & C4).
+    rewrite E, Ecv. cbn [pre app]. exists c, (v' ++ post T_INT ++ z'). split; [reflexivity | exact C4].
+  - rewrite E in Ht, Hs. cbn [tshape] in Ht. ftok Hs Hf. pose proof (float_lit_form _ x Ht Hp) as Hform.
+    destruct (float_form_head _ Hform) as (c & v' & Ecv & Hc0). destruct (num_head_facts c Hc0) as (_ & _ & _ & _ & _ & _ & _ & _ & _ & _ & _ & C4).
+    rewrite E, Ecv. cbn [pre app]. exists c, (v' ++ post T_FLOAT ++ z'). split; [reflexivity | exact C4].
 Qed.
 
 (* reading one operator-like token in a filter-like state *)
@@ -824,55 +1120,55 @@ Qed.
 
 Lemma f_et_or x y tx v i ty0 : ET 4 x tx -> F_ET 4 x tx -> F_ET 3 y ty0 -> F_ET 3 (EOr x y) (tx ++ tk T_OR v i :: ty0).
 Proof.
-  intros HX IHx IHy a z a' fr p bs T Ho Hd Hf Hsc Hpl H Hfr. apply RunT_app in H as (z1 & z2 & a1 & -> & H1 & H2). apply sc_app in Hsc as [Hsc1 Hsc2].
-  apply plain_app in Hpl as [Hpl1 Hpl2]. inversion Hpl2 as [|? ? _ Hpl3]; subst.
+  intros HX IHx IHy a z a' fr p bs T Ho Hd Hf Hsc H Hfr. apply RunT_app in H as (z1 & z2 & a1 & -> & H1 & H2). apply sc_app in Hsc as [Hsc1 Hsc2].
+ 
   destruct (gs_et 4 x tx HX a z1 a1 Ho Hd Hf Hsc1 H1) as (Hf1 & S1 & _).
   runc H2 k0 a2 bo z' Hs Hbo Hn Ht HR. ftok Hs Hf1. do 4 (apply sc_app in Hsc2 as [_ Hsc2]).
-  destruct (IHx a z1 a1 (bo ++ [124; 124]%N ++ z' ++ fr) p bs T Ho Hd Hf Hsc1 Hpl1 H1 (efol_app bo 124 _ Hbo ltac:(unfold ech; auto 10))) as (t1 & p1 & R1 & HE1).
+  destruct (IHx a z1 a1 (bo ++ [124; 124]%N ++ z' ++ fr) p bs T Ho Hd Hf Hsc1 H1 (efol_app bo 124 _ Hbo ltac:(unfold ech; auto 10))) as (t1 & p1 & R1 & HE1).
   destruct (rd_op a1 T_OR [124; 124]%N 124%N [124%N] bo (z' ++ fr) p1 bs (rev t1 ++ T) Hf1 Hbo eq_refl ltac:(left; unfold ech; auto 10) (fun p1 => sf_or _ _ _ _ p1 bs _)) as (p2 & i2 & R2).
-  destruct (IHy (amode_set a1 MFil) z' a' fr p2 bs (tk T_OR [124; 124]%N i2 :: rev t1 ++ T) (okS_fil a a1 Ho S1) ltac:(destruct S1 as (E & _); cbn [amode_set afd]; lia) (fl_mode_fil a1) Hsc2 Hpl3 HR Hfr)
+  destruct (IHy (amode_set a1 MFil) z' a' fr p2 bs (tk T_OR [124; 124]%N i2 :: rev t1 ++ T) (okS_fil a a1 Ho S1) ltac:(destruct S1 as (E & _); cbn [amode_set afd]; lia) (fl_mode_fil a1) Hsc2 HR Hfr)
     as (t2 & p3 & R3 & HE2).
   exists (t1 ++ tk T_OR [124; 124]%N i2 :: t2), p3. split; [|constructor; assumption].
   rewrite rev_snoc_app. eapply reachS_trans; [|exact R3]. eapply reachS_trans; [|exact R2]. retext (z1 ++ bo ++ [124; 124]%N ++ z' ++ fr). exact R1.
 Qed.
 Lemma f_et_34 e t : F_ET 4 e t -> F_ET 3 e t.
-Proof. intros IH a z a' fr p bs T Ho Hd Hf Hsc Hpl H Hfr. destruct (IH a z a' fr p bs T Ho Hd Hf Hsc Hpl H Hfr) as (t' & p' & R & HE). exists t', p'. split; [exact R | apply et_34; exact HE]. Qed.
+Proof. intros IH a z a' fr p bs T Ho Hd Hf Hsc H Hfr. destruct (IH a z a' fr p bs T Ho Hd Hf Hsc H Hfr) as (t' & p' & R & HE). exists t', p'. split; [exact R | apply et_34; exact HE]. Qed.
 Lemma f_et_and x y tx v i ty0 : ET 5 x tx -> F_ET 5 x tx -> F_ET 4 y ty0 -> F_ET 4 (EAnd x y) (tx ++ tk T_AND v i :: ty0).
 Proof.
-  intros HX IHx IHy a z a' fr p bs T Ho Hd Hf Hsc Hpl H Hfr. apply RunT_app in H as (z1 & z2 & a1 & -> & H1 & H2). apply sc_app in Hsc as [Hsc1 Hsc2].
-  apply plain_app in Hpl as [Hpl1 Hpl2]. inversion Hpl2 as [|? ? _ Hpl3]; subst.
+  intros HX IHx IHy a z a' fr p bs T Ho Hd Hf Hsc H Hfr. apply RunT_app in H as (z1 & z2 & a1 & -> & H1 & H2). apply sc_app in Hsc as [Hsc1 Hsc2].
+ 
   destruct (gs_et 5 x tx HX a z1 a1 Ho Hd Hf Hsc1 H1) as (Hf1 & S1 & _).
   runc H2 k0 a2 bo z' Hs Hbo Hn Ht HR. ftok Hs Hf1. do 4 (apply sc_app in Hsc2 as [_ Hsc2]).
-  destruct (IHx a z1 a1 (bo ++ [38; 38]%N ++ z' ++ fr) p bs T Ho Hd Hf Hsc1 Hpl1 H1 (efol_app bo 38 _ Hbo ltac:(unfold ech; auto 10))) as (t1 & p1 & R1 & HE1).
+  destruct (IHx a z1 a1 (bo ++ [38; 38]%N ++ z' ++ fr) p bs T Ho Hd Hf Hsc1 H1 (efol_app bo 38 _ Hbo ltac:(unfold ech; auto 10))) as (t1 & p1 & R1 & HE1).
   destruct (rd_op a1 T_AND [38; 38]%N 38%N [38%N] bo (z' ++ fr) p1 bs (rev t1 ++ T) Hf1 Hbo eq_refl ltac:(left; unfold ech; auto 10) (fun p1 => sf_and _ _ _ _ p1 bs _)) as (p2 & i2 & R2).
-  destruct (IHy (amode_set a1 MFil) z' a' fr p2 bs (tk T_AND [38; 38]%N i2 :: rev t1 ++ T) (okS_fil a a1 Ho S1) ltac:(destruct S1 as (E & _); cbn [amode_set afd]; lia) (fl_mode_fil a1) Hsc2 Hpl3 HR Hfr)
+  destruct (IHy (amode_set a1 MFil) z' a' fr p2 bs (tk T_AND [38; 38]%N i2 :: rev t1 ++ T) (okS_fil a a1 Ho S1) ltac:(destruct S1 as (E & _); cbn [amode_set afd]; lia) (fl_mode_fil a1) Hsc2 HR Hfr)
     as (t2 & p3 & R3 & HE2).
   exists (t1 ++ tk T_AND [38; 38]%N i2 :: t2), p3. split; [|constructor; assumption].
   rewrite rev_snoc_app. eapply reachS_trans; [|exact R3]. eapply reachS_trans; [|exact R2]. retext (z1 ++ bo ++ [38; 38]%N ++ z' ++ fr). exact R1.
 Qed.
 Lemma f_et_45 e t : F_ET 5 e t -> F_ET 4 e t.
-Proof. intros IH a z a' fr p bs T Ho Hd Hf Hsc Hpl H Hfr. destruct (IH a z a' fr p bs T Ho Hd Hf Hsc Hpl H Hfr) as (t' & p' & R & HE). exists t', p'. split; [exact R | apply et_45; exact HE]. Qed.
+Proof. intros IH a z a' fr p bs T Ho Hd Hf Hsc H Hfr. destruct (IH a z a' fr p bs T Ho Hd Hf Hsc H Hfr) as (t' & p' & R & HE). exists t', p'. split; [exact R | apply et_45; exact HE]. Qed.
 Lemma f_et_57 e t : F_ET 7 e t -> F_ET 5 e t.
-Proof. intros IH a z a' fr p bs T Ho Hd Hf Hsc Hpl H Hfr. destruct (IH a z a' fr p bs T Ho Hd Hf Hsc Hpl H Hfr) as (t' & p' & R & HE). exists t', p'. split; [exact R | apply et_57; exact HE]. Qed.
+Proof. intros IH a z a' fr p bs T Ho Hd Hf Hsc H Hfr. destruct (IH a z a' fr p bs T Ho Hd Hf Hsc H Hfr) as (t' & p' & R & HE). exists t', p'. split; [exact R | apply et_57; exact HE]. Qed.
 
 Lemma op_head o : exists c v', op_str o = c :: v' /\ ech c.
 Proof. destruct o; cbn [op_str]; eexists; eexists; (split; [reflexivity | unfold ech; auto 10]). Qed.
 
 Lemma f_et_cmp o x y ta v i tb : CT x ta -> CT y tb -> F_CT x ta -> F_CT y tb -> F_ET 5 (ECmp o x y) (ta ++ tk (cmp_tok o) v i :: tb).
 Proof.
-  intros HX HY IHx IHy a z a' fr p bs T Ho Hd Hf Hsc Hpl H Hfr. apply RunT_app in H as (z1 & z2 & a1 & -> & H1 & H2). apply sc_app in Hsc as [Hsc1 Hsc2].
-  apply plain_app in Hpl as [Hpl1 Hpl2]. inversion Hpl2 as [|? ? _ Hpl3]; subst.
+  intros HX HY IHx IHy a z a' fr p bs T Ho Hd Hf Hsc H Hfr. apply RunT_app in H as (z1 & z2 & a1 & -> & H1 & H2). apply sc_app in Hsc as [Hsc1 Hsc2].
+ 
   destruct (gs_ct x ta HX a z1 a1 Ho Hd Hf Hsc1 H1) as (Hf1 & S1 & _).
   apply RunT_cons_inv in H2 as (k0 & a2 & bo & z' & Hs & Hbo & Hn & Ht & HR & ->). cbn [ty tval tk] in Hs, Ht.
   destruct (cmp_tok_facts o a1 v k0 a2 Hf1 Hs Ht) as (-> & -> & Epre & Epost & Hvn & _). cbn [ty tval tk] in *. rewrite ?Epre, ?Epost in *.
   assert (Ev : v = op_str o) by (destruct o; cbn [cmp_tok tshape op_str] in *; exact Ht). subst v.
   do 4 (apply sc_app in Hsc2 as [_ Hsc2]). destruct (op_head o) as (c & v' & Eop & Hc).
-  destruct (IHx a z1 a1 (bo ++ op_str o ++ z' ++ fr) p bs T Ho Hd Hf Hsc1 Hpl1 H1) as (t1 & p1 & R1 & HE1).
+  destruct (IHx a z1 a1 (bo ++ op_str o ++ z' ++ fr) p bs T Ho Hd Hf Hsc1 H1) as (t1 & p1 & R1 & HE1).
   { rewrite Eop. cbn [app]. apply efol_app; assumption. }
-  destruct (ct_head y tb (amode_set a1 MFil) z' a' HY Hpl3 (fl_mode_fil a1) HR) as (c2 & r2 & Ez' & Hc2).
+  destruct (ct_head y tb (amode_set a1 MFil) z' a' HY (fl_mode_fil a1) HR) as (c2 & r2 & Ez' & Hc2).
   destruct (rd_op a1 (cmp_tok o) (op_str o) c v' bo (z' ++ fr) p1 bs (rev t1 ++ T) Hf1 Hbo Eop (or_introl Hc)) as (p2 & i2 & R2).
   { intros p0. rewrite Ez'. cbn [app]. apply sf_cmp_g. intros _. exact Hc2. }
-  destruct (IHy (amode_set a1 MFil) z' a' fr p2 bs (tk (cmp_tok o) (op_str o) i2 :: rev t1 ++ T) (okS_fil a a1 Ho S1) ltac:(destruct S1 as (E & _); cbn [amode_set afd]; lia) (fl_mode_fil a1) Hsc2 Hpl3 HR Hfr)
+  destruct (IHy (amode_set a1 MFil) z' a' fr p2 bs (tk (cmp_tok o) (op_str o) i2 :: rev t1 ++ T) (okS_fil a a1 Ho S1) ltac:(destruct S1 as (E & _); cbn [amode_set afd]; lia) (fl_mode_fil a1) Hsc2 HR Hfr)
     as (t2 & p3 & R3 & HE2).
   exists (t1 ++ tk (cmp_tok o) (op_str o) i2 :: t2), p3. split; [|constructor; assumption].
   rewrite rev_snoc_app. eapply reachS_trans; [|exact R3]. eapply reachS_trans; [|exact R2]. retext (z1 ++ bo ++ op_str o ++ z' ++ fr). exact R1.
@@ -892,17 +1188,16 @@ Proof.
   eexists; eexists. eapply reachS_trans; [exact R1|]. apply reachS_step. unfold LA, G. cbn [afd affd afcs]. apply sf_rparen.
 Qed.
 
-Lemma f_paren_core e t v1 i1 v2 i2 : ET 3 e t -> F_ET 3 e t -> forall a z a' fr p bs T, okS a -> 1 <= afd a -> fl a -> sc z -> plain (tk T_LPAREN v1 i1 :: t ++ [tk T_RPAREN v2 i2]) ->
-  RunT a (tk T_LPAREN v1 i1 :: t ++ [tk T_RPAREN v2 i2]) z a' ->
+Lemma f_paren_core e t v1 i1 v2 i2 : ET 3 e t -> F_ET 3 e t -> forall a z a' fr p bs T, okS a -> 1 <= afd a -> fl a -> sc z -> RunT a (tk T_LPAREN v1 i1 :: t ++ [tk T_RPAREN v2 i2]) z a' ->
   exists t' p' j1 j2, reachS (st_of a) (LA a (z ++ fr) p bs T) (st_of a') (LA a' fr p' bs (tk T_RPAREN [41%N] j2 :: rev t' ++ tk T_LPAREN [40%N] j1 :: T)) /\ ET 3 e t'.
 Proof.
-  intros HE IH a z a' fr p bs T Ho Hd Hf Hsc Hpl H. runc H k0 a1 b z' Hs Hb Hn Ht HR. ftok Hs Hf. fold (bump (afcs a)) in HR.
+  intros HE IH a z a' fr p bs T Ho Hd Hf Hsc H. runc H k0 a1 b z' Hs Hb Hn Ht HR. ftok Hs Hf. fold (bump (afcs a)) in HR.
   apply RunT_app in HR as (z1 & z2 & a2 & -> & H1 & H2). do 4 (apply sc_app in Hsc as [_ Hsc]). apply sc_app in Hsc as [Hsc1 Hsc2].
-  inversion Hpl as [|? ? _ Hpl1]; subst. apply plain_app in Hpl1 as [Hpl2 _].
+ 
   destruct (gs_et 3 e t HE _ z1 a2 (okS_bump a Ho) Hd (or_introl eq_refl) Hsc1 H1) as (Hf2 & (S1 & S2 & S3) & _). cbn [afd affd afcs] in S1, S2, S3.
   runc H2 k1 a3 b2 z'' Hs2 Hb2 Hn2 Ht2 HR2. runnil HR2. ftok Hs2 Hf2. rewrite S3. fold (unbump (bump (afcs a))). rewrite (unbump_bump _ (proj1 Ho)).
   destruct (rd_lparen a b ((z1 ++ b2 ++ [41%N]) ++ fr) p bs T Hf Hb) as (p1 & i1' & j & R1).
-  destruct (IH _ z1 a2 (b2 ++ [41%N] ++ fr) p1 ((40%N, j) :: bs) (tk T_LPAREN [40%N] i1' :: T) (okS_bump a Ho) Hd (or_introl eq_refl) Hsc1 Hpl2 H1 (efol_app b2 41 fr Hb2 ltac:(unfold ech; auto 10))) as (t' & p2 & R2 & HE').
+  destruct (IH _ z1 a2 (b2 ++ [41%N] ++ fr) p1 ((40%N, j) :: bs) (tk T_LPAREN [40%N] i1' :: T) (okS_bump a Ho) Hd (or_introl eq_refl) Hsc1 H1 (efol_app b2 41 fr Hb2 ltac:(unfold ech; auto 10))) as (t' & p2 & R2 & HE').
   destruct (rd_rparen a2 b2 fr p2 j bs (rev t' ++ tk T_LPAREN [40%N] i1' :: T) Hf2 Hb2) as (p3 & i3 & R3).
   exists t', p3, i1', i3. split; [|exact HE'].
   assert (Eu : unbump (afcs a2) = afcs a) by (rewrite S3; apply unbump_bump; exact (proj1 Ho)). rewrite Eu in R3.
@@ -916,19 +1211,19 @@ Proof. cbn [rev]. rewrite rev_app_distr. cbn [rev app]. rewrite <- !app_assoc. r
 
 Lemma f_paren e t v1 i1 v2 i2 : ET 3 e t -> F_ET 3 e t -> F_ET 7 e (tk T_LPAREN v1 i1 :: t ++ [tk T_RPAREN v2 i2]).
 Proof.
-  intros HE IH a z a' fr p bs T Ho Hd Hf Hsc Hpl H Hfr.
-  destruct (f_paren_core e t v1 i1 v2 i2 HE IH a z a' fr p bs T Ho Hd Hf Hsc Hpl H) as (t' & p' & j1 & j2 & R & HE').
+  intros HE IH a z a' fr p bs T Ho Hd Hf Hsc H Hfr.
+  destruct (f_paren_core e t v1 i1 v2 i2 HE IH a z a' fr p bs T Ho Hd Hf Hsc H) as (t' & p' & j1 & j2 & R & HE').
   exists (tk T_LPAREN [40%N] j1 :: t' ++ [tk T_RPAREN [41%N] j2]), p'. split; [rewrite rev_paren; exact R | constructor; exact HE'].
 Qed.
 Lemma f_not_paren x t v0 i0 v1 i1 v2 i2 : ET 3 x t -> F_ET 3 x t -> F_ET 7 (ENot x) (tk T_NOT v0 i0 :: tk T_LPAREN v1 i1 :: t ++ [tk T_RPAREN v2 i2]).
 Proof.
-  intros HE IH a z a' fr p bs T Ho Hd Hf Hsc Hpl H Hfr. runc H k0 a1 b z' Hs Hb Hn Ht HR. ftok Hs Hf. do 4 (apply sc_app in Hsc as [_ Hsc]). inversion Hpl as [|? ? _ Hpl1]; subst.
+  intros HE IH a z a' fr p bs T Ho Hd Hf Hsc H Hfr. runc H k0 a1 b z' Hs Hb Hn Ht HR. ftok Hs Hf. do 4 (apply sc_app in Hsc as [_ Hsc]).
   assert (Hne : ne61 (z' ++ fr)).
   { pose proof HR as HR'. runc HR' k1 a2 b1 z'' Hs1 Hb1 Hn1 Ht1 HR1. rewrite <- app_assoc. apply ne61_blank; [exact Hb1|]. ftok Hs1 (fl_mode_fil a). eexists; eexists. split; [reflexivity | discriminate]. }
   destruct Hne as (c2 & r2 & Ez & Hc2).
   destruct (rd_op a T_NOT [33%N] 33%N [] b (z' ++ fr) p bs T Hf Hb eq_refl ltac:(left; unfold ech; auto 10)) as (p1 & i1' & R1).
   { intros p0. rewrite Ez. cbn [app]. eexists. apply sf_not. exact Hc2. }
-  destruct (f_paren_core x t v1 i1 v2 i2 HE IH (amode_set a MFil) z' a' fr p1 bs (tk T_NOT [33%N] i1' :: T) (okS_same _ _ (same_stk_mode a MFil) Ho) Hd (fl_mode_fil a) Hsc Hpl1 HR)
+  destruct (f_paren_core x t v1 i1 v2 i2 HE IH (amode_set a MFil) z' a' fr p1 bs (tk T_NOT [33%N] i1' :: T) (okS_same _ _ (same_stk_mode a MFil) Ho) Hd (fl_mode_fil a) Hsc HR)
     as (t' & p' & j1 & j2 & R & HE').
   exists (tk T_NOT [33%N] i1' :: tk T_LPAREN [40%N] j1 :: t' ++ [tk T_RPAREN [41%N] j2]), p'. split; [|constructor; exact HE'].
   replace (rev (tk T_NOT [33%N] i1' :: tk T_LPAREN [40%N] j1 :: t' ++ [tk T_RPAREN [41%N] j2]) ++ T) with (tk T_RPAREN [41%N] j2 :: rev t' ++ tk T_LPAREN [40%N] j1 :: tk T_NOT [33%N] i1' :: T)
@@ -937,35 +1232,35 @@ Proof.
 Qed.
 Lemma f_not_test x t v0 i0 : TT TLogical x t -> F_TT TLogical x t -> F_ET 7 (ENot x) (tk T_NOT v0 i0 :: t).
 Proof.
-  intros HT IH a z a' fr p bs T Ho Hd Hf Hsc Hpl H Hfr. runc H k0 a1 b z' Hs Hb Hn Ht HR. ftok Hs Hf. do 4 (apply sc_app in Hsc as [_ Hsc]). inversion Hpl as [|? ? _ Hpl1]; subst.
+  intros HT IH a z a' fr p bs T Ho Hd Hf Hsc H Hfr. runc H k0 a1 b z' Hs Hb Hn Ht HR. ftok Hs Hf. do 4 (apply sc_app in Hsc as [_ Hsc]).
   destruct (tt_head TLogical x t (amode_set a MFil) z' a' HT (fl_mode_fil a) HR) as (c2 & r2 & Ez & Hc2).
   destruct (rd_op a T_NOT [33%N] 33%N [] b (z' ++ fr) p bs T Hf Hb eq_refl ltac:(left; unfold ech; auto 10)) as (p1 & i1' & R1).
   { intros p0. rewrite Ez. cbn [app]. eexists. apply sf_not. exact Hc2. }
-  destruct (IH (amode_set a MFil) z' a' fr p1 bs (tk T_NOT [33%N] i1' :: T) (okS_same _ _ (same_stk_mode a MFil) Ho) Hd (fl_mode_fil a) Hsc Hpl1 HR Hfr) as (t' & p' & R & HT').
+  destruct (IH (amode_set a MFil) z' a' fr p1 bs (tk T_NOT [33%N] i1' :: T) (okS_same _ _ (same_stk_mode a MFil) Ho) Hd (fl_mode_fil a) Hsc HR Hfr) as (t' & p' & R & HT').
   exists (tk T_NOT [33%N] i1' :: t'), p'. split; [|constructor; exact HT'].
   replace (rev (tk T_NOT [33%N] i1' :: t') ++ T) with (rev t' ++ tk T_NOT [33%N] i1' :: T) by (cbn [rev]; rewrite <- app_assoc; reflexivity).
   eapply reachS_trans; [|exact R]. retext (b ++ [33%N] ++ z' ++ fr). exact R1.
 Qed.
 Lemma f_et_test x t : F_TT TLogical x t -> F_ET 7 x t.
-Proof. intros IH a z a' fr p bs T Ho Hd Hf Hsc Hpl H Hfr. destruct (IH a z a' fr p bs T Ho Hd Hf Hsc Hpl H Hfr) as (t' & p' & R & HT). exists t', p'. split; [exact R | apply et_test; exact HT]. Qed.
+Proof. intros IH a z a' fr p bs T Ho Hd Hf Hsc H Hfr. destruct (IH a z a' fr p bs T Ho Hd Hf Hsc H Hfr) as (t' & p' & R & HT). exists t', p'. split; [exact R | apply et_test; exact HT]. Qed.
 Lemma f_ct_test x t : F_TT TValue x t -> F_CT x t.
-Proof. intros IH a z a' fr p bs T Ho Hd Hf Hsc Hpl H Hfr. destruct (IH a z a' fr p bs T Ho Hd Hf Hsc Hpl H Hfr) as (t' & p' & R & HT). exists t', p'. split; [exact R | apply ct_test; exact HT]. Qed.
+Proof. intros IH a z a' fr p bs T Ho Hd Hf Hsc H Hfr. destruct (IH a z a' fr p bs T Ho Hd Hf Hsc H Hfr) as (t' & p' & R & HT). exists t', p'. split; [exact R | apply ct_test; exact HT]. Qed.
 
 (* @ segments, $ segments *)
 Lemma f_tt_query (rel : bool) want q t v i : QT q t -> F_QT q t -> (want = TValue -> singular q = true) ->
   F_TT want (if rel then ERel q else EAbs q) (tk (if rel then T_CURRENT else T_ROOT) v i :: t).
 Proof.
-  intros HQ0 IH Hsing a z a' fr p bs T Ho Hd Hf Hsc Hpl H Hfr. runc H k0 a1 b z' Hs Hb Hn Ht HR.
+  intros HQ0 IH Hsing a z a' fr p bs T Ho Hd Hf Hsc H Hfr. runc H k0 a1 b z' Hs Hb Hn Ht HR.
   assert (Hst : k0 = GBl /\ a1 = amode_set a MSeg /\ v = [if rel then 64%N else 36%N]).
   { destruct rel; cbn [tshape] in Ht; ftok Hs Hf; repeat split; reflexivity. }
-  destruct Hst as (-> & -> & ->). do 4 (apply sc_app in Hsc as [_ Hsc]). inversion Hpl as [|? ? _ Hpl1]; subst.
+  destruct Hst as (-> & -> & ->). do 4 (apply sc_app in Hsc as [_ Hsc]).
   assert (Ho1 : okS (amode_set a MSeg)) by (apply (okS_same a); [apply same_stk_mode | exact Ho]).
   destruct (gs_qt q t HQ0 (amode_set a MSeg) z' a' Ho1 eq_refl Hsc HR) as [-> _].
   assert (Hrd : exists p1 i1, reachS (st_of a) (LA a (b ++ [if rel then 64%N else 36%N] ++ z' ++ fr) p bs T) SSegment (LA a (z' ++ fr) p1 bs (tk (if rel then T_CURRENT else T_ROOT) [if rel then 64%N else 36%N] i1 :: T))).
   { cbn [app]. destruct (to_fil a b (if rel then 64%N else 36%N) (z' ++ fr) p bs T Hf Hb ltac:(destruct rel; reflexivity) ltac:(destruct rel; discriminate) ltac:(destruct rel; discriminate)) as (p1 & R1).
     eexists; eexists. eapply reachS_trans; [exact R1|]. apply reachS_step. unfold LA, G. destruct rel; [apply sf_current | apply sf_root]. }
   destruct Hrd as (p1 & i1 & R1).
-  destruct (IH (amode_set a MSeg) z' (amode_set a MSeg) fr p1 bs (tk (if rel then T_CURRENT else T_ROOT) [if rel then 64%N else 36%N] i1 :: T) Ho1 eq_refl Hsc Hpl1 HR (efol_nn fr Hfr)) as (t' & p' & R & HQ & _).
+  destruct (IH (amode_set a MSeg) z' (amode_set a MSeg) fr p1 bs (tk (if rel then T_CURRENT else T_ROOT) [if rel then 64%N else 36%N] i1 :: T) Ho1 eq_refl Hsc HR (efol_nn fr Hfr)) as (t' & p' & R & HQ & _).
   exists (tk (if rel then T_CURRENT else T_ROOT) [if rel then 64%N else 36%N] i1 :: t'), p'. split.
   - replace (rev (tk (if rel then T_CURRENT else T_ROOT) [if rel then 64%N else 36%N] i1 :: t') ++ T) with (rev t' ++ tk (if rel then T_CURRENT else T_ROOT) [if rel then 64%N else 36%N] i1 :: T)
       by (cbn [rev]; rewrite <- app_assoc; reflexivity).
@@ -998,9 +1293,9 @@ Qed.
 Lemma f_tt_call want f d args t i v2 i2 : find_assoc f (reg cfg) = Some d -> ret_ok want (f_ret d) = true -> ArgsT (f_args d) args t -> F_ArgsT (f_args d) args t ->
   F_TT want (ECall f args) (tk T_FUNCTION f i :: t ++ [tk T_RPAREN v2 i2]).
 Proof.
-  intros Ef Hret HA IH a z a' fr p bs T Ho Hd Hf Hsc Hpl H Hfr. runc H k0 a1 b z' Hs Hb Hn Ht HR. ftok Hs Hf.
+  intros Ef Hret HA IH a z a' fr p bs T Ho Hd Hf Hsc H Hfr. runc H k0 a1 b z' Hs Hb Hn Ht HR. ftok Hs Hf.
   apply RunT_app in HR as (z1 & z2 & a2 & -> & H1 & H2). do 4 (apply sc_app in Hsc as [_ Hsc]). apply sc_app in Hsc as [Hsc1 Hsc2].
-  inversion Hpl as [|? ? _ Hpl1]; subst. apply plain_app in Hpl1 as [Hpl2 _].
+ 
   destruct Ho as (O1 & O2 & O3).
   assert (Ho1 : okS (mkA MFil (afd a) (affd a) (1 :: afcs a))).
   { split; [constructor; [lia | exact O1]|]. cbn [affd afcs afd]. split; [intros d0 r E; specialize (O2 d0 r E); unfold zlen in *; cbn [length]; lia | exact O3]. }
@@ -1008,7 +1303,7 @@ Proof.
   destruct (gs_args _ args t HA _ z1 a2 Ho1 Hd (or_introl eq_refl) Hin Hsc1 H1) as (Hf2 & (S1 & S2 & S3) & _). cbn [afd affd afcs] in S1, S2, S3.
   runc H2 k1 a3 b2 z'' Hs2 Hb2 Hn2 Ht2 HR2. runnil HR2. ftok Hs2 Hf2. rewrite S3. cbn [Z.eqb Pos.eqb].
   destruct (rd_fname a b f ((z1 ++ b2 ++ [41%N]) ++ fr) p bs T Hf Hb (pmatch_lang _ _ Ht)) as (p1 & i1' & j & R1).
-  destruct (IH _ z1 a2 (b2 ++ [41%N] ++ fr) p1 ((40%N, j) :: bs) (tk T_FUNCTION f i1' :: T) Ho1 Hd (or_introl eq_refl) Hin Hsc1 Hpl2 H1 (efol_app b2 41 fr Hb2 ltac:(unfold ech; auto 10))) as (t' & p2 & R2 & HA').
+  destruct (IH _ z1 a2 (b2 ++ [41%N] ++ fr) p1 ((40%N, j) :: bs) (tk T_FUNCTION f i1' :: T) Ho1 Hd (or_introl eq_refl) Hin Hsc1 H1 (efol_app b2 41 fr Hb2 ltac:(unfold ech; auto 10))) as (t' & p2 & R2 & HA').
   destruct (rd_rparen a2 b2 fr p2 j bs (rev t' ++ tk T_FUNCTION f i1' :: T) Hf2 Hb2) as (p3 & i3 & R3).
   assert (Eu : unbump (afcs a2) = afcs a) by (rewrite S3; reflexivity). rewrite Eu in R3.
   exists (tk T_FUNCTION f i1' :: t' ++ [tk T_RPAREN [41%N] i3]), p3. split; [|econstructor; eassumption].
@@ -1018,32 +1313,32 @@ Proof.
 Qed.
 
 Lemma f_as_nil : F_ArgsT [] [] [].
-Proof. intros a z a' fr p bs T Ho Hd Hf Hin Hsc Hpl H Hfr. runnil H. exists [], p. split; [apply reachS_refl | constructor]. Qed.
+Proof. intros a z a' fr p bs T Ho Hd Hf Hin Hsc H Hfr. runnil H. exists [], p. split; [apply reachS_refl | constructor]. Qed.
 Lemma f_as_one w e ta : F_ArgT w e ta -> F_ArgsT [w] [e] ta.
-Proof. intros IH a z a' fr p bs T Ho Hd Hf Hin Hsc Hpl H Hfr. destruct (IH a z a' fr p bs T Ho Hd Hf Hsc Hpl H Hfr) as (t' & p' & R & HA). exists t', p'. split; [exact R | constructor; exact HA]. Qed.
+Proof. intros IH a z a' fr p bs T Ho Hd Hf Hin Hsc H Hfr. destruct (IH a z a' fr p bs T Ho Hd Hf Hsc H Hfr) as (t' & p' & R & HA). exists t', p'. split; [exact R | constructor; exact HA]. Qed.
 Lemma f_as_cons w e ta v i tys args targs : ArgT w e ta -> F_ArgT w e ta -> F_ArgsT tys args targs -> args <> [] -> F_ArgsT (w :: tys) (e :: args) (ta ++ tk T_COMMA v i :: targs).
 Proof.
-  intros HA0 IHa IHr Hne a z a' fr p bs T Ho Hd Hf Hin Hsc Hpl H Hfr. apply RunT_app in H as (z1 & z2 & a1 & -> & H1 & H2). apply sc_app in Hsc as [Hsc1 Hsc2].
-  apply plain_app in Hpl as [Hpl1 Hpl2]. inversion Hpl2 as [|? ? _ Hpl3]; subst.
+  intros HA0 IHa IHr Hne a z a' fr p bs T Ho Hd Hf Hin Hsc H Hfr. apply RunT_app in H as (z1 & z2 & a1 & -> & H1 & H2). apply sc_app in Hsc as [Hsc1 Hsc2].
+ 
   destruct (gs_arg w e ta HA0 a z1 a1 Ho Hd Hf Hsc1 H1) as (Hf1 & S1 & _).
   runc H2 k0 a2 bc z' Hs Hbc Hn Ht HR. apply (fl_step _ _ _ _ Hf1) in Hs; [|discriminate|discriminate]. cbn [fil_step] in Hs.
   destruct S1 as (E1 & E2 & E3). destruct (affd a1) as [|d0 r0] eqn:Effd; [discriminate Hs|].
   assert (Hlt : d0 <? zlen (afcs a1) = true) by (rewrite E3; pose proof (Hin d0 r0 (eq_sym E2)); lia).
   rewrite Hlt in Hs. inversion Hs; subst k0 a2. clear Hs. subst v. do 4 (apply sc_app in Hsc2 as [_ Hsc2]).
   assert (S1' : same_stk a (amode_set a1 MFil)) by (repeat split; cbn [amode_set afd affd afcs]; congruence).
-  destruct (IHa a z1 a1 (bc ++ [44%N] ++ z' ++ fr) p bs T Ho Hd Hf Hsc1 Hpl1 H1 (efol_app bc 44 _ Hbc ltac:(unfold ech; auto 10))) as (t1 & p1 & R1 & HA1).
+  destruct (IHa a z1 a1 (bc ++ [44%N] ++ z' ++ fr) p bs T Ho Hd Hf Hsc1 H1 (efol_app bc 44 _ Hbc ltac:(unfold ech; auto 10))) as (t1 & p1 & R1 & HA1).
   destruct (rd_comma_in a1 d0 r0 bc (z' ++ fr) p1 bs (rev t1 ++ T) Hf1 Effd Hlt Hbc) as (p2 & i2 & R2).
   destruct (IHr (amode_set a1 MFil) z' a' fr p2 bs (tk T_COMMA [44%N] i2 :: rev t1 ++ T) (okS_same _ _ S1' Ho) ltac:(cbn [amode_set afd]; lia) (fl_mode_fil a1)
-              ltac:(intros d1 r1 E; cbn [amode_set affd afcs] in *; rewrite E3; apply (Hin d1 r1); congruence) Hsc2 Hpl3 HR Hfr) as (t2 & p3 & R3 & HA2).
+              ltac:(intros d1 r1 E; cbn [amode_set affd afcs] in *; rewrite E3; apply (Hin d1 r1); congruence) Hsc2 HR Hfr) as (t2 & p3 & R3 & HA2).
   exists (t1 ++ tk T_COMMA [44%N] i2 :: t2), p3. split; [|constructor; assumption].
   rewrite rev_snoc_app. eapply reachS_trans; [|exact R3]. eapply reachS_trans; [|exact R2]. retext (z1 ++ bc ++ [44%N] ++ z' ++ fr). exact R1.
 Qed.
 Lemma f_ar_value e t : F_CT e t -> F_ArgT TValue e t.
-Proof. intros IH a z a' fr p bs T Ho Hd Hf Hsc Hpl H Hfr. destruct (IH a z a' fr p bs T Ho Hd Hf Hsc Hpl H Hfr) as (t' & p' & R & HC). exists t', p'. split; [exact R | constructor; exact HC]. Qed.
+Proof. intros IH a z a' fr p bs T Ho Hd Hf Hsc H Hfr. destruct (IH a z a' fr p bs T Ho Hd Hf Hsc H Hfr) as (t' & p' & R & HC). exists t', p'. split; [exact R | constructor; exact HC]. Qed.
 Lemma f_ar_nodes e t : F_TT TNodes e t -> F_ArgT TNodes e t.
-Proof. intros IH a z a' fr p bs T Ho Hd Hf Hsc Hpl H Hfr. destruct (IH a z a' fr p bs T Ho Hd Hf Hsc Hpl H Hfr) as (t' & p' & R & HC). exists t', p'. split; [exact R | constructor; exact HC]. Qed.
+Proof. intros IH a z a' fr p bs T Ho Hd Hf Hsc H Hfr. destruct (IH a z a' fr p bs T Ho Hd Hf Hsc H Hfr) as (t' & p' & R & HC). exists t', p'. split; [exact R | constructor; exact HC]. Qed.
 Lemma f_ar_logical e t : F_ET 3 e t -> F_ArgT TLogical e t.
-Proof. intros IH a z a' fr p bs T Ho Hd Hf Hsc Hpl H Hfr. destruct (IH a z a' fr p bs T Ho Hd Hf Hsc Hpl H Hfr) as (t' & p' & R & HC). exists t', p'. split; [exact R | constructor; exact HC]. Qed.
+Proof. intros IH a z a' fr p bs T Ho Hd Hf Hsc H Hfr. destruct (IH a z a' fr p bs T Ho Hd Hf Hsc H Hfr) as (t' & p' & R & HC). exists t', p'. split; [exact R | constructor; exact HC]. Qed.
 
 Theorem lex_all :
   (forall q t, QT q t -> F_QT q t) /\ (forall g t, SegT g t -> F_SegT g t) /\ (forall ss t, SelsT ss t -> F_SelsT ss t) /\ (forall s t, SelT s t -> F_SelT s t) /\
@@ -1091,10 +1386,10 @@ Qed.
 End FULL.
 
 (* EVERY SPELLING OF EVERY QUERY COMPILES, TO THAT QUERY (number literals: sign, digits and an optional fraction; no exponent part). *)
-Theorem spelled_compiles cfg q t z a' : QT cfg q t -> plain t -> sc z -> RunT a0 t z a' -> m_compile cfg (36%N :: z) = Ok q.
+Theorem spelled_compiles cfg q t z a' : QT cfg q t -> sc z -> RunT a0 t z a' -> m_compile cfg (36%N :: z) = Ok q.
 Proof.
-  intros HQ Hpl Hsc HR.
-  destruct (proj1 (lex_all cfg) q t HQ a0 z a' [] 1 [] [tk T_ROOT [36%N] 0] okS_a0 eq_refl Hsc Hpl HR I) as (t' & p' & R & HQ' & _). rewrite app_nil_r in R.
+  intros HQ Hsc HR.
+  destruct (proj1 (lex_all cfg) q t HQ a0 z a' [] 1 [] [tk T_ROOT [36%N] 0] okS_a0 eq_refl Hsc HR I) as (t' & p' & R & HQ' & _). rewrite app_nil_r in R.
   assert (R0 : reachS SRoot (lexer_init (36%N :: z)) SSegment (G 0 [] [] [] p' [] (rev t' ++ [tk T_ROOT [36%N] 0]))).
   { eapply reachS_trans; [apply reachS_step; apply (Requery.step_root 0 [] [] z)|]. exact R. }
   destruct (reachS_stop _ _ _ _ _ R0 (Requery.step_seg_eof 0 [] [] [] p' _)) as [n Hn].
@@ -1105,51 +1400,14 @@ Proof.
 Qed.
 Print Assumptions spelled_compiles.
 
-(* so compile() accepts exactly the spellings (of token sequences with such numbers), and returns the query spelled *)
+(* so compile() accepts exactly the spellings of queries, and returns the query spelled *)
 Theorem compile_iff_spelled cfg q z : sc z ->
-  ((exists t a', QT cfg q t /\ plain t /\ RunT a0 t z a') -> m_compile cfg (36%N :: z) = Ok q) /\
-  (m_compile cfg (36%N :: z) = Ok q -> exists t a', QT cfg q t /\ RunT a0 t z a').
+  ((exists t a', QT cfg q t /\ RunT a0 t z a') <-> m_compile cfg (36%N :: z) = Ok q).
 Proof.
   intros Hsc. split.
-  - intros (t & a' & HQ & Hpl & HR). exact (spelled_compiles cfg q t z a' HQ Hpl Hsc HR).
+  - intros (t & a' & HQ & HR). exact (spelled_compiles cfg q t z a' HQ Hsc HR).
   - intros Hc. destruct (compiles_spelled cfg _ q Hc) as (t & z' & a' & E & HQ & HR). inversion E; subst z'. exists t, a'. split; assumption.
 Qed.
-
-(* a decidable form of [plain], to exhibit instances by computation *)
-Definition digitsb (s : list N) : bool := match s with [] => false | _ => forallb isd s end.
-Definition int_plainb (v : list N) : bool := match v with 45%N :: r => digitsb r | _ => digitsb v end.
-Definition float_plainb (v : list N) : bool :=
-  let v' := match v with 45%N :: r => r | _ => v end in
-  let ip := take_until (fun c => N.eqb c 46) v' in
-  match skipn (length ip) v' with 46%N :: fp => digitsb ip && digitsb fp | _ => false end.
-Definition plain_tokb (x : token) : bool :=
-  match ty x with T_INT => int_plainb (tval x) | T_FLOAT => float_plainb (tval x) | _ => true end.
-Lemma digitsb_spec s : digitsb s = true -> s <> [] /\ forallb isd s = true.
-Proof. destruct s; [discriminate|]. intros H. split; [discriminate | exact H]. Qed.
-Lemma take_until_split stop : forall s, s = take_until stop s ++ skipn (length (take_until stop s)) s.
-Proof. induction s as [|c s IH]; [reflexivity|]. cbn [take_until]. destruct (stop c); [reflexivity|]. cbn [length skipn app]. f_equal. exact IH. Qed.
-Lemma plain_tokb_sound x : plain_tokb x = true -> plain_tok x.
-Proof.
-  unfold plain_tokb, plain_tok. intros H. split; intros E; rewrite E in H.
-  - unfold int_plainb in H. destruct (tval x) as [|c r] eqn:Ev; [discriminate H|].
-    destruct (N.eqb c 45) eqn:E45.
-    + apply N.eqb_eq in E45. subst c. destruct (digitsb_spec r H) as [A B]. exists [45%N], r. repeat split; auto.
-    + assert (Hd : digitsb (c :: r) = true) by (destruct c; try exact H; repeat (destruct p; try exact H); discriminate E45).
-      destruct (digitsb_spec _ Hd) as [A B]. exists [], (c :: r). repeat split; auto.
-  - unfold float_plainb in H.
-    assert (G0 : forall v' sign, tval x = sign ++ v' -> (sign = [] \/ sign = [45%N]) ->
-              match skipn (length (take_until (fun c => N.eqb c 46) v')) v' with 46%N :: fp => digitsb (take_until (fun c => N.eqb c 46) v') && digitsb fp | _ => false end = true ->
-              exists sign0 ip fp, tval x = sign0 ++ ip ++ 46%N :: fp /\ (sign0 = [] \/ sign0 = [45%N]) /\ ip <> [] /\ forallb isd ip = true /\ fp <> [] /\ forallb isd fp = true).
-    { intros v' sign Ev Hs Hm. pose proof (take_until_split (fun c => N.eqb c 46) v') as Sp. set (ip := take_until (fun c => N.eqb c 46) v') in *.
-      destruct (skipn (length ip) v') as [|d fp]; [discriminate Hm|]. destruct (N.eqb d 46) eqn:E46; [|destruct d; try discriminate Hm; repeat (destruct p; try discriminate Hm); discriminate E46].
-      apply N.eqb_eq in E46. subst d. apply andb_true_iff in Hm as [H1 H2]. destruct (digitsb_spec _ H1) as [A1 B1]. destruct (digitsb_spec _ H2) as [A2 B2].
-      exists sign, ip, fp. rewrite Ev, Sp at 1. repeat split; auto. }
-    destruct (tval x) as [|c r] eqn:Ev; [cbn in H; discriminate H|]. destruct (N.eqb c 45) eqn:E45.
-    + apply N.eqb_eq in E45. subst c. apply (G0 r [45%N]); [reflexivity | right; reflexivity | exact H].
-    + apply (G0 (c :: r) []); [reflexivity | left; reflexivity|]. destruct c; try exact H. repeat (destruct p; try exact H). discriminate E45.
-Qed.
-Lemma plainb_sound t : forallb plain_tokb t = true -> plain t.
-Proof. intros H. apply Forall_forall. intros x Hx. apply plain_tokb_sound. rewrite forallb_forall in H. exact (H x Hx). Qed.
 
 (* compiles_spelled, keeping the fact that the tokens are the lexer's *)
 Theorem compiles_spelled_tok cfg text q : m_compile cfg text = Ok q ->
